@@ -349,6 +349,26 @@ module Coq_Pos =
              | XO _ -> N0
              | _ -> Npos XH)
 
+  (** val coq_lxor : positive -> positive -> n **)
+
+  let rec coq_lxor p q =
+    match p with
+    | XI p0 ->
+      (match q with
+       | XI q0 -> coq_Ndouble (coq_lxor p0 q0)
+       | XO q0 -> coq_Nsucc_double (coq_lxor p0 q0)
+       | XH -> Npos (XO p0))
+    | XO p0 ->
+      (match q with
+       | XI q0 -> coq_Nsucc_double (coq_lxor p0 q0)
+       | XO q0 -> coq_Ndouble (coq_lxor p0 q0)
+       | XH -> Npos (XI p0))
+    | XH ->
+      (match q with
+       | XI q0 -> Npos (XO q0)
+       | XO q0 -> Npos (XI q0)
+       | XH -> N0)
+
   (** val shiftl : positive -> n -> positive **)
 
   let shiftl p = function
@@ -557,6 +577,15 @@ module N =
     | Npos p -> (match m with
                  | N0 -> N0
                  | Npos q -> Coq_Pos.coq_land p q)
+
+  (** val coq_lxor : n -> n -> n **)
+
+  let coq_lxor n0 m =
+    match n0 with
+    | N0 -> m
+    | Npos p -> (match m with
+                 | N0 -> n0
+                 | Npos q -> Coq_Pos.coq_lxor p q)
 
   (** val shiftl : n -> n -> n **)
 
@@ -849,10 +878,24 @@ let oadd w a b =
   then Val (N.add a b)
   else Fault Overflow
 
+(** val omul : n -> n -> n -> n outcome **)
+
+let omul w a b =
+  if N.ltb (N.mul a b) (N.pow (Npos (XO XH)) w)
+  then Val (N.mul a b)
+  else Fault Overflow
+
 (** val oshr : n -> n -> n -> n outcome **)
 
 let oshr w x s =
   if N.ltb s w then Val (N.shiftr x s) else Fault Overflow
+
+(** val oshl : n -> n -> n -> n outcome **)
+
+let oshl w x s =
+  if N.ltb s w
+  then Val (N.modulo (N.shiftl x s) (N.pow (Npos (XO XH)) w))
+  else Fault Overflow
 
 (** val oassert : bool -> unit outcome **)
 
@@ -940,6 +983,12 @@ let rec maxN = function
 | [] -> N0
 | x :: l' -> N.max x (maxN l')
 
+(** val sumN : n list -> n **)
+
+let rec sumN = function
+| [] -> N0
+| x :: l' -> N.add x (sumN l')
+
 (** val rank_spec : n list -> n -> n -> n **)
 
 let rec rank_spec s c i =
@@ -991,6 +1040,51 @@ let pUSH_LINE_MASK =
 
 let pUSH_POS_STEP =
   Npos (XO XH)
+
+(** val qV_SYM_MASK : n **)
+
+let qV_SYM_MASK =
+  Npos (XI XH)
+
+(** val qV_WORD_SHIFT : n **)
+
+let qV_WORD_SHIFT =
+  Npos (XI (XI XH))
+
+(** val qV_WORD_MASK : n **)
+
+let qV_WORD_MASK =
+  Npos (XI (XI (XI (XI (XI (XI XH))))))
+
+(** val qV_LOW_PLANE : n **)
+
+let qV_LOW_PLANE =
+  Npos (XO XH)
+
+(** val qVG_WORD_SHIFT : n **)
+
+let qVG_WORD_SHIFT =
+  Npos (XI (XI XH))
+
+(** val qVG_WORD_MASK : n **)
+
+let qVG_WORD_MASK =
+  Npos (XI (XI (XI (XI (XI (XI XH))))))
+
+(** val qVG_LOW_PLANE : n **)
+
+let qVG_LOW_PLANE =
+  Npos (XO XH)
+
+(** val qVR_WORD_SHIFT : n **)
+
+let qVR_WORD_SHIFT =
+  Npos (XI (XI XH))
+
+(** val qVR_WORD_MASK : n **)
+
+let qVR_WORD_MASK =
+  Npos (XI (XI (XI (XI (XI (XI XH))))))
 
 (** val qV_LEN_SHIFT : n **)
 
@@ -1074,6 +1168,62 @@ let mAX_LEN =
 
 let rANK_BLOCK_MASK =
   Npos (XI (XI XH))
+
+(** val k_ONES_STEP4 : n **)
+
+let k_ONES_STEP4 =
+  Npos (XI (XO (XO (XO (XI (XO (XO (XO (XI (XO (XO (XO (XI (XO (XO (XO (XI
+    (XO (XO (XO (XI (XO (XO (XO (XI (XO (XO (XO (XI (XO (XO (XO (XI (XO (XO
+    (XO (XI (XO (XO (XO (XI (XO (XO (XO (XI (XO (XO (XO (XI (XO (XO (XO (XI
+    (XO (XO (XO (XI (XO (XO (XO
+    XH))))))))))))))))))))))))))))))))))))))))))))))))))))))))))))
+
+(** val k_ONES_STEP8 : n **)
+
+let k_ONES_STEP8 =
+  Npos (XI (XO (XO (XO (XO (XO (XO (XO (XI (XO (XO (XO (XO (XO (XO (XO (XI
+    (XO (XO (XO (XO (XO (XO (XO (XI (XO (XO (XO (XO (XO (XO (XO (XI (XO (XO
+    (XO (XO (XO (XO (XO (XI (XO (XO (XO (XO (XO (XO (XO (XI (XO (XO (XO (XO
+    (XO (XO (XO XH))))))))))))))))))))))))))))))))))))))))))))))))))))))))
+
+(** val k_LAMBDAS_STEP8 : n **)
+
+let k_LAMBDAS_STEP8 =
+  Npos (XO (XO (XO (XO (XO (XO (XO (XI (XO (XO (XO (XO (XO (XO (XO (XI (XO
+    (XO (XO (XO (XO (XO (XO (XI (XO (XO (XO (XO (XO (XO (XO (XI (XO (XO (XO
+    (XO (XO (XO (XO (XI (XO (XO (XO (XO (XO (XO (XO (XI (XO (XO (XO (XO (XO
+    (XO (XO (XI (XO (XO (XO (XO (XO (XO (XO
+    XH)))))))))))))))))))))))))))))))))))))))))))))))))))))))))))))))
+
+(** val sIW_M1 : n **)
+
+let sIW_M1 =
+  Npos (XO (XI (XO XH)))
+
+(** val sIW_M2 : n **)
+
+let sIW_M2 =
+  Npos (XI XH)
+
+(** val sIW_M3 : n **)
+
+let sIW_M3 =
+  Npos (XI (XI (XI XH)))
+
+(** val sIW_PLACE_MUL : n **)
+
+let sIW_PLACE_MUL =
+  Npos (XO (XO (XO XH)))
+
+(** val sIW_NOTFOUND : n **)
+
+let sIW_NOTFOUND =
+  Npos (XO (XO (XO (XO (XO (XO XH))))))
+
+(** val sIW_BYTE_MASK : n **)
+
+let sIW_BYTE_MASK =
+  Npos (XI (XI (XI (XI (XI (XI (XI XH)))))))
 
 (** val lINE_SYMS : n **)
 
@@ -1942,3 +2092,1020 @@ let qwt_rank_prefetch w bsize t symbol i =
   then Val None
   else bind (qwt_rank_prefetch_unchecked w bsize t symbol i) (fun v -> Val
          (Some v))
+
+(** val sel_table : n list **)
+
+let sel_table =
+  (Npos (XO (XO (XO XH)))) :: (N0 :: ((Npos XH) :: (N0 :: ((Npos (XO
+    XH)) :: (N0 :: ((Npos XH) :: (N0 :: ((Npos (XI XH)) :: (N0 :: ((Npos
+    XH) :: (N0 :: ((Npos (XO XH)) :: (N0 :: ((Npos XH) :: (N0 :: ((Npos (XO
+    (XO XH))) :: (N0 :: ((Npos XH) :: (N0 :: ((Npos (XO XH)) :: (N0 :: ((Npos
+    XH) :: (N0 :: ((Npos (XI XH)) :: (N0 :: ((Npos XH) :: (N0 :: ((Npos (XO
+    XH)) :: (N0 :: ((Npos XH) :: (N0 :: ((Npos (XI (XO XH))) :: (N0 :: ((Npos
+    XH) :: (N0 :: ((Npos (XO XH)) :: (N0 :: ((Npos XH) :: (N0 :: ((Npos (XI
+    XH)) :: (N0 :: ((Npos XH) :: (N0 :: ((Npos (XO XH)) :: (N0 :: ((Npos
+    XH) :: (N0 :: ((Npos (XO (XO XH))) :: (N0 :: ((Npos XH) :: (N0 :: ((Npos
+    (XO XH)) :: (N0 :: ((Npos XH) :: (N0 :: ((Npos (XI XH)) :: (N0 :: ((Npos
+    XH) :: (N0 :: ((Npos (XO XH)) :: (N0 :: ((Npos XH) :: (N0 :: ((Npos (XO
+    (XI XH))) :: (N0 :: ((Npos XH) :: (N0 :: ((Npos (XO XH)) :: (N0 :: ((Npos
+    XH) :: (N0 :: ((Npos (XI XH)) :: (N0 :: ((Npos XH) :: (N0 :: ((Npos (XO
+    XH)) :: (N0 :: ((Npos XH) :: (N0 :: ((Npos (XO (XO XH))) :: (N0 :: ((Npos
+    XH) :: (N0 :: ((Npos (XO XH)) :: (N0 :: ((Npos XH) :: (N0 :: ((Npos (XI
+    XH)) :: (N0 :: ((Npos XH) :: (N0 :: ((Npos (XO XH)) :: (N0 :: ((Npos
+    XH) :: (N0 :: ((Npos (XI (XO XH))) :: (N0 :: ((Npos XH) :: (N0 :: ((Npos
+    (XO XH)) :: (N0 :: ((Npos XH) :: (N0 :: ((Npos (XI XH)) :: (N0 :: ((Npos
+    XH) :: (N0 :: ((Npos (XO XH)) :: (N0 :: ((Npos XH) :: (N0 :: ((Npos (XO
+    (XO XH))) :: (N0 :: ((Npos XH) :: (N0 :: ((Npos (XO XH)) :: (N0 :: ((Npos
+    XH) :: (N0 :: ((Npos (XI XH)) :: (N0 :: ((Npos XH) :: (N0 :: ((Npos (XO
+    XH)) :: (N0 :: ((Npos XH) :: (N0 :: ((Npos (XI (XI XH))) :: (N0 :: ((Npos
+    XH) :: (N0 :: ((Npos (XO XH)) :: (N0 :: ((Npos XH) :: (N0 :: ((Npos (XI
+    XH)) :: (N0 :: ((Npos XH) :: (N0 :: ((Npos (XO XH)) :: (N0 :: ((Npos
+    XH) :: (N0 :: ((Npos (XO (XO XH))) :: (N0 :: ((Npos XH) :: (N0 :: ((Npos
+    (XO XH)) :: (N0 :: ((Npos XH) :: (N0 :: ((Npos (XI XH)) :: (N0 :: ((Npos
+    XH) :: (N0 :: ((Npos (XO XH)) :: (N0 :: ((Npos XH) :: (N0 :: ((Npos (XI
+    (XO XH))) :: (N0 :: ((Npos XH) :: (N0 :: ((Npos (XO XH)) :: (N0 :: ((Npos
+    XH) :: (N0 :: ((Npos (XI XH)) :: (N0 :: ((Npos XH) :: (N0 :: ((Npos (XO
+    XH)) :: (N0 :: ((Npos XH) :: (N0 :: ((Npos (XO (XO XH))) :: (N0 :: ((Npos
+    XH) :: (N0 :: ((Npos (XO XH)) :: (N0 :: ((Npos XH) :: (N0 :: ((Npos (XI
+    XH)) :: (N0 :: ((Npos XH) :: (N0 :: ((Npos (XO XH)) :: (N0 :: ((Npos
+    XH) :: (N0 :: ((Npos (XO (XI XH))) :: (N0 :: ((Npos XH) :: (N0 :: ((Npos
+    (XO XH)) :: (N0 :: ((Npos XH) :: (N0 :: ((Npos (XI XH)) :: (N0 :: ((Npos
+    XH) :: (N0 :: ((Npos (XO XH)) :: (N0 :: ((Npos XH) :: (N0 :: ((Npos (XO
+    (XO XH))) :: (N0 :: ((Npos XH) :: (N0 :: ((Npos (XO XH)) :: (N0 :: ((Npos
+    XH) :: (N0 :: ((Npos (XI XH)) :: (N0 :: ((Npos XH) :: (N0 :: ((Npos (XO
+    XH)) :: (N0 :: ((Npos XH) :: (N0 :: ((Npos (XI (XO XH))) :: (N0 :: ((Npos
+    XH) :: (N0 :: ((Npos (XO XH)) :: (N0 :: ((Npos XH) :: (N0 :: ((Npos (XI
+    XH)) :: (N0 :: ((Npos XH) :: (N0 :: ((Npos (XO XH)) :: (N0 :: ((Npos
+    XH) :: (N0 :: ((Npos (XO (XO XH))) :: (N0 :: ((Npos XH) :: (N0 :: ((Npos
+    (XO XH)) :: (N0 :: ((Npos XH) :: (N0 :: ((Npos (XI XH)) :: (N0 :: ((Npos
+    XH) :: (N0 :: ((Npos (XO XH)) :: (N0 :: ((Npos XH) :: (N0 :: ((Npos (XO
+    (XO (XO XH)))) :: ((Npos (XO (XO (XO XH)))) :: ((Npos (XO (XO (XO
+    XH)))) :: ((Npos XH) :: ((Npos (XO (XO (XO XH)))) :: ((Npos (XO
+    XH)) :: ((Npos (XO XH)) :: ((Npos XH) :: ((Npos (XO (XO (XO
+    XH)))) :: ((Npos (XI XH)) :: ((Npos (XI XH)) :: ((Npos XH) :: ((Npos (XI
+    XH)) :: ((Npos (XO XH)) :: ((Npos (XO XH)) :: ((Npos XH) :: ((Npos (XO
+    (XO (XO XH)))) :: ((Npos (XO (XO XH))) :: ((Npos (XO (XO XH))) :: ((Npos
+    XH) :: ((Npos (XO (XO XH))) :: ((Npos (XO XH)) :: ((Npos (XO
+    XH)) :: ((Npos XH) :: ((Npos (XO (XO XH))) :: ((Npos (XI XH)) :: ((Npos
+    (XI XH)) :: ((Npos XH) :: ((Npos (XI XH)) :: ((Npos (XO XH)) :: ((Npos
+    (XO XH)) :: ((Npos XH) :: ((Npos (XO (XO (XO XH)))) :: ((Npos (XI (XO
+    XH))) :: ((Npos (XI (XO XH))) :: ((Npos XH) :: ((Npos (XI (XO
+    XH))) :: ((Npos (XO XH)) :: ((Npos (XO XH)) :: ((Npos XH) :: ((Npos (XI
+    (XO XH))) :: ((Npos (XI XH)) :: ((Npos (XI XH)) :: ((Npos XH) :: ((Npos
+    (XI XH)) :: ((Npos (XO XH)) :: ((Npos (XO XH)) :: ((Npos XH) :: ((Npos
+    (XI (XO XH))) :: ((Npos (XO (XO XH))) :: ((Npos (XO (XO XH))) :: ((Npos
+    XH) :: ((Npos (XO (XO XH))) :: ((Npos (XO XH)) :: ((Npos (XO
+    XH)) :: ((Npos XH) :: ((Npos (XO (XO XH))) :: ((Npos (XI XH)) :: ((Npos
+    (XI XH)) :: ((Npos XH) :: ((Npos (XI XH)) :: ((Npos (XO XH)) :: ((Npos
+    (XO XH)) :: ((Npos XH) :: ((Npos (XO (XO (XO XH)))) :: ((Npos (XO (XI
+    XH))) :: ((Npos (XO (XI XH))) :: ((Npos XH) :: ((Npos (XO (XI
+    XH))) :: ((Npos (XO XH)) :: ((Npos (XO XH)) :: ((Npos XH) :: ((Npos (XO
+    (XI XH))) :: ((Npos (XI XH)) :: ((Npos (XI XH)) :: ((Npos XH) :: ((Npos
+    (XI XH)) :: ((Npos (XO XH)) :: ((Npos (XO XH)) :: ((Npos XH) :: ((Npos
+    (XO (XI XH))) :: ((Npos (XO (XO XH))) :: ((Npos (XO (XO XH))) :: ((Npos
+    XH) :: ((Npos (XO (XO XH))) :: ((Npos (XO XH)) :: ((Npos (XO
+    XH)) :: ((Npos XH) :: ((Npos (XO (XO XH))) :: ((Npos (XI XH)) :: ((Npos
+    (XI XH)) :: ((Npos XH) :: ((Npos (XI XH)) :: ((Npos (XO XH)) :: ((Npos
+    (XO XH)) :: ((Npos XH) :: ((Npos (XO (XI XH))) :: ((Npos (XI (XO
+    XH))) :: ((Npos (XI (XO XH))) :: ((Npos XH) :: ((Npos (XI (XO
+    XH))) :: ((Npos (XO XH)) :: ((Npos (XO XH)) :: ((Npos XH) :: ((Npos (XI
+    (XO XH))) :: ((Npos (XI XH)) :: ((Npos (XI XH)) :: ((Npos XH) :: ((Npos
+    (XI XH)) :: ((Npos (XO XH)) :: ((Npos (XO XH)) :: ((Npos XH) :: ((Npos
+    (XI (XO XH))) :: ((Npos (XO (XO XH))) :: ((Npos (XO (XO XH))) :: ((Npos
+    XH) :: ((Npos (XO (XO XH))) :: ((Npos (XO XH)) :: ((Npos (XO
+    XH)) :: ((Npos XH) :: ((Npos (XO (XO XH))) :: ((Npos (XI XH)) :: ((Npos
+    (XI XH)) :: ((Npos XH) :: ((Npos (XI XH)) :: ((Npos (XO XH)) :: ((Npos
+    (XO XH)) :: ((Npos XH) :: ((Npos (XO (XO (XO XH)))) :: ((Npos (XI (XI
+    XH))) :: ((Npos (XI (XI XH))) :: ((Npos XH) :: ((Npos (XI (XI
+    XH))) :: ((Npos (XO XH)) :: ((Npos (XO XH)) :: ((Npos XH) :: ((Npos (XI
+    (XI XH))) :: ((Npos (XI XH)) :: ((Npos (XI XH)) :: ((Npos XH) :: ((Npos
+    (XI XH)) :: ((Npos (XO XH)) :: ((Npos (XO XH)) :: ((Npos XH) :: ((Npos
+    (XI (XI XH))) :: ((Npos (XO (XO XH))) :: ((Npos (XO (XO XH))) :: ((Npos
+    XH) :: ((Npos (XO (XO XH))) :: ((Npos (XO XH)) :: ((Npos (XO
+    XH)) :: ((Npos XH) :: ((Npos (XO (XO XH))) :: ((Npos (XI XH)) :: ((Npos
+    (XI XH)) :: ((Npos XH) :: ((Npos (XI XH)) :: ((Npos (XO XH)) :: ((Npos
+    (XO XH)) :: ((Npos XH) :: ((Npos (XI (XI XH))) :: ((Npos (XI (XO
+    XH))) :: ((Npos (XI (XO XH))) :: ((Npos XH) :: ((Npos (XI (XO
+    XH))) :: ((Npos (XO XH)) :: ((Npos (XO XH)) :: ((Npos XH) :: ((Npos (XI
+    (XO XH))) :: ((Npos (XI XH)) :: ((Npos (XI XH)) :: ((Npos XH) :: ((Npos
+    (XI XH)) :: ((Npos (XO XH)) :: ((Npos (XO XH)) :: ((Npos XH) :: ((Npos
+    (XI (XO XH))) :: ((Npos (XO (XO XH))) :: ((Npos (XO (XO XH))) :: ((Npos
+    XH) :: ((Npos (XO (XO XH))) :: ((Npos (XO XH)) :: ((Npos (XO
+    XH)) :: ((Npos XH) :: ((Npos (XO (XO XH))) :: ((Npos (XI XH)) :: ((Npos
+    (XI XH)) :: ((Npos XH) :: ((Npos (XI XH)) :: ((Npos (XO XH)) :: ((Npos
+    (XO XH)) :: ((Npos XH) :: ((Npos (XI (XI XH))) :: ((Npos (XO (XI
+    XH))) :: ((Npos (XO (XI XH))) :: ((Npos XH) :: ((Npos (XO (XI
+    XH))) :: ((Npos (XO XH)) :: ((Npos (XO XH)) :: ((Npos XH) :: ((Npos (XO
+    (XI XH))) :: ((Npos (XI XH)) :: ((Npos (XI XH)) :: ((Npos XH) :: ((Npos
+    (XI XH)) :: ((Npos (XO XH)) :: ((Npos (XO XH)) :: ((Npos XH) :: ((Npos
+    (XO (XI XH))) :: ((Npos (XO (XO XH))) :: ((Npos (XO (XO XH))) :: ((Npos
+    XH) :: ((Npos (XO (XO XH))) :: ((Npos (XO XH)) :: ((Npos (XO
+    XH)) :: ((Npos XH) :: ((Npos (XO (XO XH))) :: ((Npos (XI XH)) :: ((Npos
+    (XI XH)) :: ((Npos XH) :: ((Npos (XI XH)) :: ((Npos (XO XH)) :: ((Npos
+    (XO XH)) :: ((Npos XH) :: ((Npos (XO (XI XH))) :: ((Npos (XI (XO
+    XH))) :: ((Npos (XI (XO XH))) :: ((Npos XH) :: ((Npos (XI (XO
+    XH))) :: ((Npos (XO XH)) :: ((Npos (XO XH)) :: ((Npos XH) :: ((Npos (XI
+    (XO XH))) :: ((Npos (XI XH)) :: ((Npos (XI XH)) :: ((Npos XH) :: ((Npos
+    (XI XH)) :: ((Npos (XO XH)) :: ((Npos (XO XH)) :: ((Npos XH) :: ((Npos
+    (XI (XO XH))) :: ((Npos (XO (XO XH))) :: ((Npos (XO (XO XH))) :: ((Npos
+    XH) :: ((Npos (XO (XO XH))) :: ((Npos (XO XH)) :: ((Npos (XO
+    XH)) :: ((Npos XH) :: ((Npos (XO (XO XH))) :: ((Npos (XI XH)) :: ((Npos
+    (XI XH)) :: ((Npos XH) :: ((Npos (XI XH)) :: ((Npos (XO XH)) :: ((Npos
+    (XO XH)) :: ((Npos XH) :: ((Npos (XO (XO (XO XH)))) :: ((Npos (XO (XO (XO
+    XH)))) :: ((Npos (XO (XO (XO XH)))) :: ((Npos (XO (XO (XO
+    XH)))) :: ((Npos (XO (XO (XO XH)))) :: ((Npos (XO (XO (XO
+    XH)))) :: ((Npos (XO (XO (XO XH)))) :: ((Npos (XO XH)) :: ((Npos (XO (XO
+    (XO XH)))) :: ((Npos (XO (XO (XO XH)))) :: ((Npos (XO (XO (XO
+    XH)))) :: ((Npos (XI XH)) :: ((Npos (XO (XO (XO XH)))) :: ((Npos (XI
+    XH)) :: ((Npos (XI XH)) :: ((Npos (XO XH)) :: ((Npos (XO (XO (XO
+    XH)))) :: ((Npos (XO (XO (XO XH)))) :: ((Npos (XO (XO (XO
+    XH)))) :: ((Npos (XO (XO XH))) :: ((Npos (XO (XO (XO XH)))) :: ((Npos (XO
+    (XO XH))) :: ((Npos (XO (XO XH))) :: ((Npos (XO XH)) :: ((Npos (XO (XO
+    (XO XH)))) :: ((Npos (XO (XO XH))) :: ((Npos (XO (XO XH))) :: ((Npos (XI
+    XH)) :: ((Npos (XO (XO XH))) :: ((Npos (XI XH)) :: ((Npos (XI
+    XH)) :: ((Npos (XO XH)) :: ((Npos (XO (XO (XO XH)))) :: ((Npos (XO (XO
+    (XO XH)))) :: ((Npos (XO (XO (XO XH)))) :: ((Npos (XI (XO XH))) :: ((Npos
+    (XO (XO (XO XH)))) :: ((Npos (XI (XO XH))) :: ((Npos (XI (XO
+    XH))) :: ((Npos (XO XH)) :: ((Npos (XO (XO (XO XH)))) :: ((Npos (XI (XO
+    XH))) :: ((Npos (XI (XO XH))) :: ((Npos (XI XH)) :: ((Npos (XI (XO
+    XH))) :: ((Npos (XI XH)) :: ((Npos (XI XH)) :: ((Npos (XO XH)) :: ((Npos
+    (XO (XO (XO XH)))) :: ((Npos (XI (XO XH))) :: ((Npos (XI (XO
+    XH))) :: ((Npos (XO (XO XH))) :: ((Npos (XI (XO XH))) :: ((Npos (XO (XO
+    XH))) :: ((Npos (XO (XO XH))) :: ((Npos (XO XH)) :: ((Npos (XI (XO
+    XH))) :: ((Npos (XO (XO XH))) :: ((Npos (XO (XO XH))) :: ((Npos (XI
+    XH)) :: ((Npos (XO (XO XH))) :: ((Npos (XI XH)) :: ((Npos (XI
+    XH)) :: ((Npos (XO XH)) :: ((Npos (XO (XO (XO XH)))) :: ((Npos (XO (XO
+    (XO XH)))) :: ((Npos (XO (XO (XO XH)))) :: ((Npos (XO (XI XH))) :: ((Npos
+    (XO (XO (XO XH)))) :: ((Npos (XO (XI XH))) :: ((Npos (XO (XI
+    XH))) :: ((Npos (XO XH)) :: ((Npos (XO (XO (XO XH)))) :: ((Npos (XO (XI
+    XH))) :: ((Npos (XO (XI XH))) :: ((Npos (XI XH)) :: ((Npos (XO (XI
+    XH))) :: ((Npos (XI XH)) :: ((Npos (XI XH)) :: ((Npos (XO XH)) :: ((Npos
+    (XO (XO (XO XH)))) :: ((Npos (XO (XI XH))) :: ((Npos (XO (XI
+    XH))) :: ((Npos (XO (XO XH))) :: ((Npos (XO (XI XH))) :: ((Npos (XO (XO
+    XH))) :: ((Npos (XO (XO XH))) :: ((Npos (XO XH)) :: ((Npos (XO (XI
+    XH))) :: ((Npos (XO (XO XH))) :: ((Npos (XO (XO XH))) :: ((Npos (XI
+    XH)) :: ((Npos (XO (XO XH))) :: ((Npos (XI XH)) :: ((Npos (XI
+    XH)) :: ((Npos (XO XH)) :: ((Npos (XO (XO (XO XH)))) :: ((Npos (XO (XI
+    XH))) :: ((Npos (XO (XI XH))) :: ((Npos (XI (XO XH))) :: ((Npos (XO (XI
+    XH))) :: ((Npos (XI (XO XH))) :: ((Npos (XI (XO XH))) :: ((Npos (XO
+    XH)) :: ((Npos (XO (XI XH))) :: ((Npos (XI (XO XH))) :: ((Npos (XI (XO
+    XH))) :: ((Npos (XI XH)) :: ((Npos (XI (XO XH))) :: ((Npos (XI
+    XH)) :: ((Npos (XI XH)) :: ((Npos (XO XH)) :: ((Npos (XO (XI
+    XH))) :: ((Npos (XI (XO XH))) :: ((Npos (XI (XO XH))) :: ((Npos (XO (XO
+    XH))) :: ((Npos (XI (XO XH))) :: ((Npos (XO (XO XH))) :: ((Npos (XO (XO
+    XH))) :: ((Npos (XO XH)) :: ((Npos (XI (XO XH))) :: ((Npos (XO (XO
+    XH))) :: ((Npos (XO (XO XH))) :: ((Npos (XI XH)) :: ((Npos (XO (XO
+    XH))) :: ((Npos (XI XH)) :: ((Npos (XI XH)) :: ((Npos (XO XH)) :: ((Npos
+    (XO (XO (XO XH)))) :: ((Npos (XO (XO (XO XH)))) :: ((Npos (XO (XO (XO
+    XH)))) :: ((Npos (XI (XI XH))) :: ((Npos (XO (XO (XO XH)))) :: ((Npos (XI
+    (XI XH))) :: ((Npos (XI (XI XH))) :: ((Npos (XO XH)) :: ((Npos (XO (XO
+    (XO XH)))) :: ((Npos (XI (XI XH))) :: ((Npos (XI (XI XH))) :: ((Npos (XI
+    XH)) :: ((Npos (XI (XI XH))) :: ((Npos (XI XH)) :: ((Npos (XI
+    XH)) :: ((Npos (XO XH)) :: ((Npos (XO (XO (XO XH)))) :: ((Npos (XI (XI
+    XH))) :: ((Npos (XI (XI XH))) :: ((Npos (XO (XO XH))) :: ((Npos (XI (XI
+    XH))) :: ((Npos (XO (XO XH))) :: ((Npos (XO (XO XH))) :: ((Npos (XO
+    XH)) :: ((Npos (XI (XI XH))) :: ((Npos (XO (XO XH))) :: ((Npos (XO (XO
+    XH))) :: ((Npos (XI XH)) :: ((Npos (XO (XO XH))) :: ((Npos (XI
+    XH)) :: ((Npos (XI XH)) :: ((Npos (XO XH)) :: ((Npos (XO (XO (XO
+    XH)))) :: ((Npos (XI (XI XH))) :: ((Npos (XI (XI XH))) :: ((Npos (XI (XO
+    XH))) :: ((Npos (XI (XI XH))) :: ((Npos (XI (XO XH))) :: ((Npos (XI (XO
+    XH))) :: ((Npos (XO XH)) :: ((Npos (XI (XI XH))) :: ((Npos (XI (XO
+    XH))) :: ((Npos (XI (XO XH))) :: ((Npos (XI XH)) :: ((Npos (XI (XO
+    XH))) :: ((Npos (XI XH)) :: ((Npos (XI XH)) :: ((Npos (XO XH)) :: ((Npos
+    (XI (XI XH))) :: ((Npos (XI (XO XH))) :: ((Npos (XI (XO XH))) :: ((Npos
+    (XO (XO XH))) :: ((Npos (XI (XO XH))) :: ((Npos (XO (XO XH))) :: ((Npos
+    (XO (XO XH))) :: ((Npos (XO XH)) :: ((Npos (XI (XO XH))) :: ((Npos (XO
+    (XO XH))) :: ((Npos (XO (XO XH))) :: ((Npos (XI XH)) :: ((Npos (XO (XO
+    XH))) :: ((Npos (XI XH)) :: ((Npos (XI XH)) :: ((Npos (XO XH)) :: ((Npos
+    (XO (XO (XO XH)))) :: ((Npos (XI (XI XH))) :: ((Npos (XI (XI
+    XH))) :: ((Npos (XO (XI XH))) :: ((Npos (XI (XI XH))) :: ((Npos (XO (XI
+    XH))) :: ((Npos (XO (XI XH))) :: ((Npos (XO XH)) :: ((Npos (XI (XI
+    XH))) :: ((Npos (XO (XI XH))) :: ((Npos (XO (XI XH))) :: ((Npos (XI
+    XH)) :: ((Npos (XO (XI XH))) :: ((Npos (XI XH)) :: ((Npos (XI
+    XH)) :: ((Npos (XO XH)) :: ((Npos (XI (XI XH))) :: ((Npos (XO (XI
+    XH))) :: ((Npos (XO (XI XH))) :: ((Npos (XO (XO XH))) :: ((Npos (XO (XI
+    XH))) :: ((Npos (XO (XO XH))) :: ((Npos (XO (XO XH))) :: ((Npos (XO
+    XH)) :: ((Npos (XO (XI XH))) :: ((Npos (XO (XO XH))) :: ((Npos (XO (XO
+    XH))) :: ((Npos (XI XH)) :: ((Npos (XO (XO XH))) :: ((Npos (XI
+    XH)) :: ((Npos (XI XH)) :: ((Npos (XO XH)) :: ((Npos (XI (XI
+    XH))) :: ((Npos (XO (XI XH))) :: ((Npos (XO (XI XH))) :: ((Npos (XI (XO
+    XH))) :: ((Npos (XO (XI XH))) :: ((Npos (XI (XO XH))) :: ((Npos (XI (XO
+    XH))) :: ((Npos (XO XH)) :: ((Npos (XO (XI XH))) :: ((Npos (XI (XO
+    XH))) :: ((Npos (XI (XO XH))) :: ((Npos (XI XH)) :: ((Npos (XI (XO
+    XH))) :: ((Npos (XI XH)) :: ((Npos (XI XH)) :: ((Npos (XO XH)) :: ((Npos
+    (XO (XI XH))) :: ((Npos (XI (XO XH))) :: ((Npos (XI (XO XH))) :: ((Npos
+    (XO (XO XH))) :: ((Npos (XI (XO XH))) :: ((Npos (XO (XO XH))) :: ((Npos
+    (XO (XO XH))) :: ((Npos (XO XH)) :: ((Npos (XI (XO XH))) :: ((Npos (XO
+    (XO XH))) :: ((Npos (XO (XO XH))) :: ((Npos (XI XH)) :: ((Npos (XO (XO
+    XH))) :: ((Npos (XI XH)) :: ((Npos (XI XH)) :: ((Npos (XO XH)) :: ((Npos
+    (XO (XO (XO XH)))) :: ((Npos (XO (XO (XO XH)))) :: ((Npos (XO (XO (XO
+    XH)))) :: ((Npos (XO (XO (XO XH)))) :: ((Npos (XO (XO (XO
+    XH)))) :: ((Npos (XO (XO (XO XH)))) :: ((Npos (XO (XO (XO
+    XH)))) :: ((Npos (XO (XO (XO XH)))) :: ((Npos (XO (XO (XO
+    XH)))) :: ((Npos (XO (XO (XO XH)))) :: ((Npos (XO (XO (XO
+    XH)))) :: ((Npos (XO (XO (XO XH)))) :: ((Npos (XO (XO (XO
+    XH)))) :: ((Npos (XO (XO (XO XH)))) :: ((Npos (XO (XO (XO
+    XH)))) :: ((Npos (XI XH)) :: ((Npos (XO (XO (XO XH)))) :: ((Npos (XO (XO
+    (XO XH)))) :: ((Npos (XO (XO (XO XH)))) :: ((Npos (XO (XO (XO
+    XH)))) :: ((Npos (XO (XO (XO XH)))) :: ((Npos (XO (XO (XO
+    XH)))) :: ((Npos (XO (XO (XO XH)))) :: ((Npos (XO (XO XH))) :: ((Npos (XO
+    (XO (XO XH)))) :: ((Npos (XO (XO (XO XH)))) :: ((Npos (XO (XO (XO
+    XH)))) :: ((Npos (XO (XO XH))) :: ((Npos (XO (XO (XO XH)))) :: ((Npos (XO
+    (XO XH))) :: ((Npos (XO (XO XH))) :: ((Npos (XI XH)) :: ((Npos (XO (XO
+    (XO XH)))) :: ((Npos (XO (XO (XO XH)))) :: ((Npos (XO (XO (XO
+    XH)))) :: ((Npos (XO (XO (XO XH)))) :: ((Npos (XO (XO (XO
+    XH)))) :: ((Npos (XO (XO (XO XH)))) :: ((Npos (XO (XO (XO
+    XH)))) :: ((Npos (XI (XO XH))) :: ((Npos (XO (XO (XO XH)))) :: ((Npos (XO
+    (XO (XO XH)))) :: ((Npos (XO (XO (XO XH)))) :: ((Npos (XI (XO
+    XH))) :: ((Npos (XO (XO (XO XH)))) :: ((Npos (XI (XO XH))) :: ((Npos (XI
+    (XO XH))) :: ((Npos (XI XH)) :: ((Npos (XO (XO (XO XH)))) :: ((Npos (XO
+    (XO (XO XH)))) :: ((Npos (XO (XO (XO XH)))) :: ((Npos (XI (XO
+    XH))) :: ((Npos (XO (XO (XO XH)))) :: ((Npos (XI (XO XH))) :: ((Npos (XI
+    (XO XH))) :: ((Npos (XO (XO XH))) :: ((Npos (XO (XO (XO XH)))) :: ((Npos
+    (XI (XO XH))) :: ((Npos (XI (XO XH))) :: ((Npos (XO (XO XH))) :: ((Npos
+    (XI (XO XH))) :: ((Npos (XO (XO XH))) :: ((Npos (XO (XO XH))) :: ((Npos
+    (XI XH)) :: ((Npos (XO (XO (XO XH)))) :: ((Npos (XO (XO (XO
+    XH)))) :: ((Npos (XO (XO (XO XH)))) :: ((Npos (XO (XO (XO
+    XH)))) :: ((Npos (XO (XO (XO XH)))) :: ((Npos (XO (XO (XO
+    XH)))) :: ((Npos (XO (XO (XO XH)))) :: ((Npos (XO (XI XH))) :: ((Npos (XO
+    (XO (XO XH)))) :: ((Npos (XO (XO (XO XH)))) :: ((Npos (XO (XO (XO
+    XH)))) :: ((Npos (XO (XI XH))) :: ((Npos (XO (XO (XO XH)))) :: ((Npos (XO
+    (XI XH))) :: ((Npos (XO (XI XH))) :: ((Npos (XI XH)) :: ((Npos (XO (XO
+    (XO XH)))) :: ((Npos (XO (XO (XO XH)))) :: ((Npos (XO (XO (XO
+    XH)))) :: ((Npos (XO (XI XH))) :: ((Npos (XO (XO (XO XH)))) :: ((Npos (XO
+    (XI XH))) :: ((Npos (XO (XI XH))) :: ((Npos (XO (XO XH))) :: ((Npos (XO
+    (XO (XO XH)))) :: ((Npos (XO (XI XH))) :: ((Npos (XO (XI XH))) :: ((Npos
+    (XO (XO XH))) :: ((Npos (XO (XI XH))) :: ((Npos (XO (XO XH))) :: ((Npos
+    (XO (XO XH))) :: ((Npos (XI XH)) :: ((Npos (XO (XO (XO XH)))) :: ((Npos
+    (XO (XO (XO XH)))) :: ((Npos (XO (XO (XO XH)))) :: ((Npos (XO (XI
+    XH))) :: ((Npos (XO (XO (XO XH)))) :: ((Npos (XO (XI XH))) :: ((Npos (XO
+    (XI XH))) :: ((Npos (XI (XO XH))) :: ((Npos (XO (XO (XO XH)))) :: ((Npos
+    (XO (XI XH))) :: ((Npos (XO (XI XH))) :: ((Npos (XI (XO XH))) :: ((Npos
+    (XO (XI XH))) :: ((Npos (XI (XO XH))) :: ((Npos (XI (XO XH))) :: ((Npos
+    (XI XH)) :: ((Npos (XO (XO (XO XH)))) :: ((Npos (XO (XI XH))) :: ((Npos
+    (XO (XI XH))) :: ((Npos (XI (XO XH))) :: ((Npos (XO (XI XH))) :: ((Npos
+    (XI (XO XH))) :: ((Npos (XI (XO XH))) :: ((Npos (XO (XO XH))) :: ((Npos
+    (XO (XI XH))) :: ((Npos (XI (XO XH))) :: ((Npos (XI (XO XH))) :: ((Npos
+    (XO (XO XH))) :: ((Npos (XI (XO XH))) :: ((Npos (XO (XO XH))) :: ((Npos
+    (XO (XO XH))) :: ((Npos (XI XH)) :: ((Npos (XO (XO (XO XH)))) :: ((Npos
+    (XO (XO (XO XH)))) :: ((Npos (XO (XO (XO XH)))) :: ((Npos (XO (XO (XO
+    XH)))) :: ((Npos (XO (XO (XO XH)))) :: ((Npos (XO (XO (XO
+    XH)))) :: ((Npos (XO (XO (XO XH)))) :: ((Npos (XI (XI XH))) :: ((Npos (XO
+    (XO (XO XH)))) :: ((Npos (XO (XO (XO XH)))) :: ((Npos (XO (XO (XO
+    XH)))) :: ((Npos (XI (XI XH))) :: ((Npos (XO (XO (XO XH)))) :: ((Npos (XI
+    (XI XH))) :: ((Npos (XI (XI XH))) :: ((Npos (XI XH)) :: ((Npos (XO (XO
+    (XO XH)))) :: ((Npos (XO (XO (XO XH)))) :: ((Npos (XO (XO (XO
+    XH)))) :: ((Npos (XI (XI XH))) :: ((Npos (XO (XO (XO XH)))) :: ((Npos (XI
+    (XI XH))) :: ((Npos (XI (XI XH))) :: ((Npos (XO (XO XH))) :: ((Npos (XO
+    (XO (XO XH)))) :: ((Npos (XI (XI XH))) :: ((Npos (XI (XI XH))) :: ((Npos
+    (XO (XO XH))) :: ((Npos (XI (XI XH))) :: ((Npos (XO (XO XH))) :: ((Npos
+    (XO (XO XH))) :: ((Npos (XI XH)) :: ((Npos (XO (XO (XO XH)))) :: ((Npos
+    (XO (XO (XO XH)))) :: ((Npos (XO (XO (XO XH)))) :: ((Npos (XI (XI
+    XH))) :: ((Npos (XO (XO (XO XH)))) :: ((Npos (XI (XI XH))) :: ((Npos (XI
+    (XI XH))) :: ((Npos (XI (XO XH))) :: ((Npos (XO (XO (XO XH)))) :: ((Npos
+    (XI (XI XH))) :: ((Npos (XI (XI XH))) :: ((Npos (XI (XO XH))) :: ((Npos
+    (XI (XI XH))) :: ((Npos (XI (XO XH))) :: ((Npos (XI (XO XH))) :: ((Npos
+    (XI XH)) :: ((Npos (XO (XO (XO XH)))) :: ((Npos (XI (XI XH))) :: ((Npos
+    (XI (XI XH))) :: ((Npos (XI (XO XH))) :: ((Npos (XI (XI XH))) :: ((Npos
+    (XI (XO XH))) :: ((Npos (XI (XO XH))) :: ((Npos (XO (XO XH))) :: ((Npos
+    (XI (XI XH))) :: ((Npos (XI (XO XH))) :: ((Npos (XI (XO XH))) :: ((Npos
+    (XO (XO XH))) :: ((Npos (XI (XO XH))) :: ((Npos (XO (XO XH))) :: ((Npos
+    (XO (XO XH))) :: ((Npos (XI XH)) :: ((Npos (XO (XO (XO XH)))) :: ((Npos
+    (XO (XO (XO XH)))) :: ((Npos (XO (XO (XO XH)))) :: ((Npos (XI (XI
+    XH))) :: ((Npos (XO (XO (XO XH)))) :: ((Npos (XI (XI XH))) :: ((Npos (XI
+    (XI XH))) :: ((Npos (XO (XI XH))) :: ((Npos (XO (XO (XO XH)))) :: ((Npos
+    (XI (XI XH))) :: ((Npos (XI (XI XH))) :: ((Npos (XO (XI XH))) :: ((Npos
+    (XI (XI XH))) :: ((Npos (XO (XI XH))) :: ((Npos (XO (XI XH))) :: ((Npos
+    (XI XH)) :: ((Npos (XO (XO (XO XH)))) :: ((Npos (XI (XI XH))) :: ((Npos
+    (XI (XI XH))) :: ((Npos (XO (XI XH))) :: ((Npos (XI (XI XH))) :: ((Npos
+    (XO (XI XH))) :: ((Npos (XO (XI XH))) :: ((Npos (XO (XO XH))) :: ((Npos
+    (XI (XI XH))) :: ((Npos (XO (XI XH))) :: ((Npos (XO (XI XH))) :: ((Npos
+    (XO (XO XH))) :: ((Npos (XO (XI XH))) :: ((Npos (XO (XO XH))) :: ((Npos
+    (XO (XO XH))) :: ((Npos (XI XH)) :: ((Npos (XO (XO (XO XH)))) :: ((Npos
+    (XI (XI XH))) :: ((Npos (XI (XI XH))) :: ((Npos (XO (XI XH))) :: ((Npos
+    (XI (XI XH))) :: ((Npos (XO (XI XH))) :: ((Npos (XO (XI XH))) :: ((Npos
+    (XI (XO XH))) :: ((Npos (XI (XI XH))) :: ((Npos (XO (XI XH))) :: ((Npos
+    (XO (XI XH))) :: ((Npos (XI (XO XH))) :: ((Npos (XO (XI XH))) :: ((Npos
+    (XI (XO XH))) :: ((Npos (XI (XO XH))) :: ((Npos (XI XH)) :: ((Npos (XI
+    (XI XH))) :: ((Npos (XO (XI XH))) :: ((Npos (XO (XI XH))) :: ((Npos (XI
+    (XO XH))) :: ((Npos (XO (XI XH))) :: ((Npos (XI (XO XH))) :: ((Npos (XI
+    (XO XH))) :: ((Npos (XO (XO XH))) :: ((Npos (XO (XI XH))) :: ((Npos (XI
+    (XO XH))) :: ((Npos (XI (XO XH))) :: ((Npos (XO (XO XH))) :: ((Npos (XI
+    (XO XH))) :: ((Npos (XO (XO XH))) :: ((Npos (XO (XO XH))) :: ((Npos (XI
+    XH)) :: ((Npos (XO (XO (XO XH)))) :: ((Npos (XO (XO (XO XH)))) :: ((Npos
+    (XO (XO (XO XH)))) :: ((Npos (XO (XO (XO XH)))) :: ((Npos (XO (XO (XO
+    XH)))) :: ((Npos (XO (XO (XO XH)))) :: ((Npos (XO (XO (XO
+    XH)))) :: ((Npos (XO (XO (XO XH)))) :: ((Npos (XO (XO (XO
+    XH)))) :: ((Npos (XO (XO (XO XH)))) :: ((Npos (XO (XO (XO
+    XH)))) :: ((Npos (XO (XO (XO XH)))) :: ((Npos (XO (XO (XO
+    XH)))) :: ((Npos (XO (XO (XO XH)))) :: ((Npos (XO (XO (XO
+    XH)))) :: ((Npos (XO (XO (XO XH)))) :: ((Npos (XO (XO (XO
+    XH)))) :: ((Npos (XO (XO (XO XH)))) :: ((Npos (XO (XO (XO
+    XH)))) :: ((Npos (XO (XO (XO XH)))) :: ((Npos (XO (XO (XO
+    XH)))) :: ((Npos (XO (XO (XO XH)))) :: ((Npos (XO (XO (XO
+    XH)))) :: ((Npos (XO (XO (XO XH)))) :: ((Npos (XO (XO (XO
+    XH)))) :: ((Npos (XO (XO (XO XH)))) :: ((Npos (XO (XO (XO
+    XH)))) :: ((Npos (XO (XO (XO XH)))) :: ((Npos (XO (XO (XO
+    XH)))) :: ((Npos (XO (XO (XO XH)))) :: ((Npos (XO (XO (XO
+    XH)))) :: ((Npos (XO (XO XH))) :: ((Npos (XO (XO (XO XH)))) :: ((Npos (XO
+    (XO (XO XH)))) :: ((Npos (XO (XO (XO XH)))) :: ((Npos (XO (XO (XO
+    XH)))) :: ((Npos (XO (XO (XO XH)))) :: ((Npos (XO (XO (XO
+    XH)))) :: ((Npos (XO (XO (XO XH)))) :: ((Npos (XO (XO (XO
+    XH)))) :: ((Npos (XO (XO (XO XH)))) :: ((Npos (XO (XO (XO
+    XH)))) :: ((Npos (XO (XO (XO XH)))) :: ((Npos (XO (XO (XO
+    XH)))) :: ((Npos (XO (XO (XO XH)))) :: ((Npos (XO (XO (XO
+    XH)))) :: ((Npos (XO (XO (XO XH)))) :: ((Npos (XI (XO XH))) :: ((Npos (XO
+    (XO (XO XH)))) :: ((Npos (XO (XO (XO XH)))) :: ((Npos (XO (XO (XO
+    XH)))) :: ((Npos (XO (XO (XO XH)))) :: ((Npos (XO (XO (XO
+    XH)))) :: ((Npos (XO (XO (XO XH)))) :: ((Npos (XO (XO (XO
+    XH)))) :: ((Npos (XI (XO XH))) :: ((Npos (XO (XO (XO XH)))) :: ((Npos (XO
+    (XO (XO XH)))) :: ((Npos (XO (XO (XO XH)))) :: ((Npos (XI (XO
+    XH))) :: ((Npos (XO (XO (XO XH)))) :: ((Npos (XI (XO XH))) :: ((Npos (XI
+    (XO XH))) :: ((Npos (XO (XO XH))) :: ((Npos (XO (XO (XO XH)))) :: ((Npos
+    (XO (XO (XO XH)))) :: ((Npos (XO (XO (XO XH)))) :: ((Npos (XO (XO (XO
+    XH)))) :: ((Npos (XO (XO (XO XH)))) :: ((Npos (XO (XO (XO
+    XH)))) :: ((Npos (XO (XO (XO XH)))) :: ((Npos (XO (XO (XO
+    XH)))) :: ((Npos (XO (XO (XO XH)))) :: ((Npos (XO (XO (XO
+    XH)))) :: ((Npos (XO (XO (XO XH)))) :: ((Npos (XO (XO (XO
+    XH)))) :: ((Npos (XO (XO (XO XH)))) :: ((Npos (XO (XO (XO
+    XH)))) :: ((Npos (XO (XO (XO XH)))) :: ((Npos (XO (XI XH))) :: ((Npos (XO
+    (XO (XO XH)))) :: ((Npos (XO (XO (XO XH)))) :: ((Npos (XO (XO (XO
+    XH)))) :: ((Npos (XO (XO (XO XH)))) :: ((Npos (XO (XO (XO
+    XH)))) :: ((Npos (XO (XO (XO XH)))) :: ((Npos (XO (XO (XO
+    XH)))) :: ((Npos (XO (XI XH))) :: ((Npos (XO (XO (XO XH)))) :: ((Npos (XO
+    (XO (XO XH)))) :: ((Npos (XO (XO (XO XH)))) :: ((Npos (XO (XI
+    XH))) :: ((Npos (XO (XO (XO XH)))) :: ((Npos (XO (XI XH))) :: ((Npos (XO
+    (XI XH))) :: ((Npos (XO (XO XH))) :: ((Npos (XO (XO (XO XH)))) :: ((Npos
+    (XO (XO (XO XH)))) :: ((Npos (XO (XO (XO XH)))) :: ((Npos (XO (XO (XO
+    XH)))) :: ((Npos (XO (XO (XO XH)))) :: ((Npos (XO (XO (XO
+    XH)))) :: ((Npos (XO (XO (XO XH)))) :: ((Npos (XO (XI XH))) :: ((Npos (XO
+    (XO (XO XH)))) :: ((Npos (XO (XO (XO XH)))) :: ((Npos (XO (XO (XO
+    XH)))) :: ((Npos (XO (XI XH))) :: ((Npos (XO (XO (XO XH)))) :: ((Npos (XO
+    (XI XH))) :: ((Npos (XO (XI XH))) :: ((Npos (XI (XO XH))) :: ((Npos (XO
+    (XO (XO XH)))) :: ((Npos (XO (XO (XO XH)))) :: ((Npos (XO (XO (XO
+    XH)))) :: ((Npos (XO (XI XH))) :: ((Npos (XO (XO (XO XH)))) :: ((Npos (XO
+    (XI XH))) :: ((Npos (XO (XI XH))) :: ((Npos (XI (XO XH))) :: ((Npos (XO
+    (XO (XO XH)))) :: ((Npos (XO (XI XH))) :: ((Npos (XO (XI XH))) :: ((Npos
+    (XI (XO XH))) :: ((Npos (XO (XI XH))) :: ((Npos (XI (XO XH))) :: ((Npos
+    (XI (XO XH))) :: ((Npos (XO (XO XH))) :: ((Npos (XO (XO (XO
+    XH)))) :: ((Npos (XO (XO (XO XH)))) :: ((Npos (XO (XO (XO
+    XH)))) :: ((Npos (XO (XO (XO XH)))) :: ((Npos (XO (XO (XO
+    XH)))) :: ((Npos (XO (XO (XO XH)))) :: ((Npos (XO (XO (XO
+    XH)))) :: ((Npos (XO (XO (XO XH)))) :: ((Npos (XO (XO (XO
+    XH)))) :: ((Npos (XO (XO (XO XH)))) :: ((Npos (XO (XO (XO
+    XH)))) :: ((Npos (XO (XO (XO XH)))) :: ((Npos (XO (XO (XO
+    XH)))) :: ((Npos (XO (XO (XO XH)))) :: ((Npos (XO (XO (XO
+    XH)))) :: ((Npos (XI (XI XH))) :: ((Npos (XO (XO (XO XH)))) :: ((Npos (XO
+    (XO (XO XH)))) :: ((Npos (XO (XO (XO XH)))) :: ((Npos (XO (XO (XO
+    XH)))) :: ((Npos (XO (XO (XO XH)))) :: ((Npos (XO (XO (XO
+    XH)))) :: ((Npos (XO (XO (XO XH)))) :: ((Npos (XI (XI XH))) :: ((Npos (XO
+    (XO (XO XH)))) :: ((Npos (XO (XO (XO XH)))) :: ((Npos (XO (XO (XO
+    XH)))) :: ((Npos (XI (XI XH))) :: ((Npos (XO (XO (XO XH)))) :: ((Npos (XI
+    (XI XH))) :: ((Npos (XI (XI XH))) :: ((Npos (XO (XO XH))) :: ((Npos (XO
+    (XO (XO XH)))) :: ((Npos (XO (XO (XO XH)))) :: ((Npos (XO (XO (XO
+    XH)))) :: ((Npos (XO (XO (XO XH)))) :: ((Npos (XO (XO (XO
+    XH)))) :: ((Npos (XO (XO (XO XH)))) :: ((Npos (XO (XO (XO
+    XH)))) :: ((Npos (XI (XI XH))) :: ((Npos (XO (XO (XO XH)))) :: ((Npos (XO
+    (XO (XO XH)))) :: ((Npos (XO (XO (XO XH)))) :: ((Npos (XI (XI
+    XH))) :: ((Npos (XO (XO (XO XH)))) :: ((Npos (XI (XI XH))) :: ((Npos (XI
+    (XI XH))) :: ((Npos (XI (XO XH))) :: ((Npos (XO (XO (XO XH)))) :: ((Npos
+    (XO (XO (XO XH)))) :: ((Npos (XO (XO (XO XH)))) :: ((Npos (XI (XI
+    XH))) :: ((Npos (XO (XO (XO XH)))) :: ((Npos (XI (XI XH))) :: ((Npos (XI
+    (XI XH))) :: ((Npos (XI (XO XH))) :: ((Npos (XO (XO (XO XH)))) :: ((Npos
+    (XI (XI XH))) :: ((Npos (XI (XI XH))) :: ((Npos (XI (XO XH))) :: ((Npos
+    (XI (XI XH))) :: ((Npos (XI (XO XH))) :: ((Npos (XI (XO XH))) :: ((Npos
+    (XO (XO XH))) :: ((Npos (XO (XO (XO XH)))) :: ((Npos (XO (XO (XO
+    XH)))) :: ((Npos (XO (XO (XO XH)))) :: ((Npos (XO (XO (XO
+    XH)))) :: ((Npos (XO (XO (XO XH)))) :: ((Npos (XO (XO (XO
+    XH)))) :: ((Npos (XO (XO (XO XH)))) :: ((Npos (XI (XI XH))) :: ((Npos (XO
+    (XO (XO XH)))) :: ((Npos (XO (XO (XO XH)))) :: ((Npos (XO (XO (XO
+    XH)))) :: ((Npos (XI (XI XH))) :: ((Npos (XO (XO (XO XH)))) :: ((Npos (XI
+    (XI XH))) :: ((Npos (XI (XI XH))) :: ((Npos (XO (XI XH))) :: ((Npos (XO
+    (XO (XO XH)))) :: ((Npos (XO (XO (XO XH)))) :: ((Npos (XO (XO (XO
+    XH)))) :: ((Npos (XI (XI XH))) :: ((Npos (XO (XO (XO XH)))) :: ((Npos (XI
+    (XI XH))) :: ((Npos (XI (XI XH))) :: ((Npos (XO (XI XH))) :: ((Npos (XO
+    (XO (XO XH)))) :: ((Npos (XI (XI XH))) :: ((Npos (XI (XI XH))) :: ((Npos
+    (XO (XI XH))) :: ((Npos (XI (XI XH))) :: ((Npos (XO (XI XH))) :: ((Npos
+    (XO (XI XH))) :: ((Npos (XO (XO XH))) :: ((Npos (XO (XO (XO
+    XH)))) :: ((Npos (XO (XO (XO XH)))) :: ((Npos (XO (XO (XO
+    XH)))) :: ((Npos (XI (XI XH))) :: ((Npos (XO (XO (XO XH)))) :: ((Npos (XI
+    (XI XH))) :: ((Npos (XI (XI XH))) :: ((Npos (XO (XI XH))) :: ((Npos (XO
+    (XO (XO XH)))) :: ((Npos (XI (XI XH))) :: ((Npos (XI (XI XH))) :: ((Npos
+    (XO (XI XH))) :: ((Npos (XI (XI XH))) :: ((Npos (XO (XI XH))) :: ((Npos
+    (XO (XI XH))) :: ((Npos (XI (XO XH))) :: ((Npos (XO (XO (XO
+    XH)))) :: ((Npos (XI (XI XH))) :: ((Npos (XI (XI XH))) :: ((Npos (XO (XI
+    XH))) :: ((Npos (XI (XI XH))) :: ((Npos (XO (XI XH))) :: ((Npos (XO (XI
+    XH))) :: ((Npos (XI (XO XH))) :: ((Npos (XI (XI XH))) :: ((Npos (XO (XI
+    XH))) :: ((Npos (XO (XI XH))) :: ((Npos (XI (XO XH))) :: ((Npos (XO (XI
+    XH))) :: ((Npos (XI (XO XH))) :: ((Npos (XI (XO XH))) :: ((Npos (XO (XO
+    XH))) :: ((Npos (XO (XO (XO XH)))) :: ((Npos (XO (XO (XO XH)))) :: ((Npos
+    (XO (XO (XO XH)))) :: ((Npos (XO (XO (XO XH)))) :: ((Npos (XO (XO (XO
+    XH)))) :: ((Npos (XO (XO (XO XH)))) :: ((Npos (XO (XO (XO
+    XH)))) :: ((Npos (XO (XO (XO XH)))) :: ((Npos (XO (XO (XO
+    XH)))) :: ((Npos (XO (XO (XO XH)))) :: ((Npos (XO (XO (XO
+    XH)))) :: ((Npos (XO (XO (XO XH)))) :: ((Npos (XO (XO (XO
+    XH)))) :: ((Npos (XO (XO (XO XH)))) :: ((Npos (XO (XO (XO
+    XH)))) :: ((Npos (XO (XO (XO XH)))) :: ((Npos (XO (XO (XO
+    XH)))) :: ((Npos (XO (XO (XO XH)))) :: ((Npos (XO (XO (XO
+    XH)))) :: ((Npos (XO (XO (XO XH)))) :: ((Npos (XO (XO (XO
+    XH)))) :: ((Npos (XO (XO (XO XH)))) :: ((Npos (XO (XO (XO
+    XH)))) :: ((Npos (XO (XO (XO XH)))) :: ((Npos (XO (XO (XO
+    XH)))) :: ((Npos (XO (XO (XO XH)))) :: ((Npos (XO (XO (XO
+    XH)))) :: ((Npos (XO (XO (XO XH)))) :: ((Npos (XO (XO (XO
+    XH)))) :: ((Npos (XO (XO (XO XH)))) :: ((Npos (XO (XO (XO
+    XH)))) :: ((Npos (XO (XO (XO XH)))) :: ((Npos (XO (XO (XO
+    XH)))) :: ((Npos (XO (XO (XO XH)))) :: ((Npos (XO (XO (XO
+    XH)))) :: ((Npos (XO (XO (XO XH)))) :: ((Npos (XO (XO (XO
+    XH)))) :: ((Npos (XO (XO (XO XH)))) :: ((Npos (XO (XO (XO
+    XH)))) :: ((Npos (XO (XO (XO XH)))) :: ((Npos (XO (XO (XO
+    XH)))) :: ((Npos (XO (XO (XO XH)))) :: ((Npos (XO (XO (XO
+    XH)))) :: ((Npos (XO (XO (XO XH)))) :: ((Npos (XO (XO (XO
+    XH)))) :: ((Npos (XO (XO (XO XH)))) :: ((Npos (XO (XO (XO
+    XH)))) :: ((Npos (XO (XO (XO XH)))) :: ((Npos (XO (XO (XO
+    XH)))) :: ((Npos (XO (XO (XO XH)))) :: ((Npos (XO (XO (XO
+    XH)))) :: ((Npos (XO (XO (XO XH)))) :: ((Npos (XO (XO (XO
+    XH)))) :: ((Npos (XO (XO (XO XH)))) :: ((Npos (XO (XO (XO
+    XH)))) :: ((Npos (XO (XO (XO XH)))) :: ((Npos (XO (XO (XO
+    XH)))) :: ((Npos (XO (XO (XO XH)))) :: ((Npos (XO (XO (XO
+    XH)))) :: ((Npos (XO (XO (XO XH)))) :: ((Npos (XO (XO (XO
+    XH)))) :: ((Npos (XO (XO (XO XH)))) :: ((Npos (XO (XO (XO
+    XH)))) :: ((Npos (XI (XO XH))) :: ((Npos (XO (XO (XO XH)))) :: ((Npos (XO
+    (XO (XO XH)))) :: ((Npos (XO (XO (XO XH)))) :: ((Npos (XO (XO (XO
+    XH)))) :: ((Npos (XO (XO (XO XH)))) :: ((Npos (XO (XO (XO
+    XH)))) :: ((Npos (XO (XO (XO XH)))) :: ((Npos (XO (XO (XO
+    XH)))) :: ((Npos (XO (XO (XO XH)))) :: ((Npos (XO (XO (XO
+    XH)))) :: ((Npos (XO (XO (XO XH)))) :: ((Npos (XO (XO (XO
+    XH)))) :: ((Npos (XO (XO (XO XH)))) :: ((Npos (XO (XO (XO
+    XH)))) :: ((Npos (XO (XO (XO XH)))) :: ((Npos (XO (XO (XO
+    XH)))) :: ((Npos (XO (XO (XO XH)))) :: ((Npos (XO (XO (XO
+    XH)))) :: ((Npos (XO (XO (XO XH)))) :: ((Npos (XO (XO (XO
+    XH)))) :: ((Npos (XO (XO (XO XH)))) :: ((Npos (XO (XO (XO
+    XH)))) :: ((Npos (XO (XO (XO XH)))) :: ((Npos (XO (XO (XO
+    XH)))) :: ((Npos (XO (XO (XO XH)))) :: ((Npos (XO (XO (XO
+    XH)))) :: ((Npos (XO (XO (XO XH)))) :: ((Npos (XO (XO (XO
+    XH)))) :: ((Npos (XO (XO (XO XH)))) :: ((Npos (XO (XO (XO
+    XH)))) :: ((Npos (XO (XO (XO XH)))) :: ((Npos (XO (XI XH))) :: ((Npos (XO
+    (XO (XO XH)))) :: ((Npos (XO (XO (XO XH)))) :: ((Npos (XO (XO (XO
+    XH)))) :: ((Npos (XO (XO (XO XH)))) :: ((Npos (XO (XO (XO
+    XH)))) :: ((Npos (XO (XO (XO XH)))) :: ((Npos (XO (XO (XO
+    XH)))) :: ((Npos (XO (XO (XO XH)))) :: ((Npos (XO (XO (XO
+    XH)))) :: ((Npos (XO (XO (XO XH)))) :: ((Npos (XO (XO (XO
+    XH)))) :: ((Npos (XO (XO (XO XH)))) :: ((Npos (XO (XO (XO
+    XH)))) :: ((Npos (XO (XO (XO XH)))) :: ((Npos (XO (XO (XO
+    XH)))) :: ((Npos (XO (XI XH))) :: ((Npos (XO (XO (XO XH)))) :: ((Npos (XO
+    (XO (XO XH)))) :: ((Npos (XO (XO (XO XH)))) :: ((Npos (XO (XO (XO
+    XH)))) :: ((Npos (XO (XO (XO XH)))) :: ((Npos (XO (XO (XO
+    XH)))) :: ((Npos (XO (XO (XO XH)))) :: ((Npos (XO (XI XH))) :: ((Npos (XO
+    (XO (XO XH)))) :: ((Npos (XO (XO (XO XH)))) :: ((Npos (XO (XO (XO
+    XH)))) :: ((Npos (XO (XI XH))) :: ((Npos (XO (XO (XO XH)))) :: ((Npos (XO
+    (XI XH))) :: ((Npos (XO (XI XH))) :: ((Npos (XI (XO XH))) :: ((Npos (XO
+    (XO (XO XH)))) :: ((Npos (XO (XO (XO XH)))) :: ((Npos (XO (XO (XO
+    XH)))) :: ((Npos (XO (XO (XO XH)))) :: ((Npos (XO (XO (XO
+    XH)))) :: ((Npos (XO (XO (XO XH)))) :: ((Npos (XO (XO (XO
+    XH)))) :: ((Npos (XO (XO (XO XH)))) :: ((Npos (XO (XO (XO
+    XH)))) :: ((Npos (XO (XO (XO XH)))) :: ((Npos (XO (XO (XO
+    XH)))) :: ((Npos (XO (XO (XO XH)))) :: ((Npos (XO (XO (XO
+    XH)))) :: ((Npos (XO (XO (XO XH)))) :: ((Npos (XO (XO (XO
+    XH)))) :: ((Npos (XO (XO (XO XH)))) :: ((Npos (XO (XO (XO
+    XH)))) :: ((Npos (XO (XO (XO XH)))) :: ((Npos (XO (XO (XO
+    XH)))) :: ((Npos (XO (XO (XO XH)))) :: ((Npos (XO (XO (XO
+    XH)))) :: ((Npos (XO (XO (XO XH)))) :: ((Npos (XO (XO (XO
+    XH)))) :: ((Npos (XO (XO (XO XH)))) :: ((Npos (XO (XO (XO
+    XH)))) :: ((Npos (XO (XO (XO XH)))) :: ((Npos (XO (XO (XO
+    XH)))) :: ((Npos (XO (XO (XO XH)))) :: ((Npos (XO (XO (XO
+    XH)))) :: ((Npos (XO (XO (XO XH)))) :: ((Npos (XO (XO (XO
+    XH)))) :: ((Npos (XI (XI XH))) :: ((Npos (XO (XO (XO XH)))) :: ((Npos (XO
+    (XO (XO XH)))) :: ((Npos (XO (XO (XO XH)))) :: ((Npos (XO (XO (XO
+    XH)))) :: ((Npos (XO (XO (XO XH)))) :: ((Npos (XO (XO (XO
+    XH)))) :: ((Npos (XO (XO (XO XH)))) :: ((Npos (XO (XO (XO
+    XH)))) :: ((Npos (XO (XO (XO XH)))) :: ((Npos (XO (XO (XO
+    XH)))) :: ((Npos (XO (XO (XO XH)))) :: ((Npos (XO (XO (XO
+    XH)))) :: ((Npos (XO (XO (XO XH)))) :: ((Npos (XO (XO (XO
+    XH)))) :: ((Npos (XO (XO (XO XH)))) :: ((Npos (XI (XI XH))) :: ((Npos (XO
+    (XO (XO XH)))) :: ((Npos (XO (XO (XO XH)))) :: ((Npos (XO (XO (XO
+    XH)))) :: ((Npos (XO (XO (XO XH)))) :: ((Npos (XO (XO (XO
+    XH)))) :: ((Npos (XO (XO (XO XH)))) :: ((Npos (XO (XO (XO
+    XH)))) :: ((Npos (XI (XI XH))) :: ((Npos (XO (XO (XO XH)))) :: ((Npos (XO
+    (XO (XO XH)))) :: ((Npos (XO (XO (XO XH)))) :: ((Npos (XI (XI
+    XH))) :: ((Npos (XO (XO (XO XH)))) :: ((Npos (XI (XI XH))) :: ((Npos (XI
+    (XI XH))) :: ((Npos (XI (XO XH))) :: ((Npos (XO (XO (XO XH)))) :: ((Npos
+    (XO (XO (XO XH)))) :: ((Npos (XO (XO (XO XH)))) :: ((Npos (XO (XO (XO
+    XH)))) :: ((Npos (XO (XO (XO XH)))) :: ((Npos (XO (XO (XO
+    XH)))) :: ((Npos (XO (XO (XO XH)))) :: ((Npos (XO (XO (XO
+    XH)))) :: ((Npos (XO (XO (XO XH)))) :: ((Npos (XO (XO (XO
+    XH)))) :: ((Npos (XO (XO (XO XH)))) :: ((Npos (XO (XO (XO
+    XH)))) :: ((Npos (XO (XO (XO XH)))) :: ((Npos (XO (XO (XO
+    XH)))) :: ((Npos (XO (XO (XO XH)))) :: ((Npos (XI (XI XH))) :: ((Npos (XO
+    (XO (XO XH)))) :: ((Npos (XO (XO (XO XH)))) :: ((Npos (XO (XO (XO
+    XH)))) :: ((Npos (XO (XO (XO XH)))) :: ((Npos (XO (XO (XO
+    XH)))) :: ((Npos (XO (XO (XO XH)))) :: ((Npos (XO (XO (XO
+    XH)))) :: ((Npos (XI (XI XH))) :: ((Npos (XO (XO (XO XH)))) :: ((Npos (XO
+    (XO (XO XH)))) :: ((Npos (XO (XO (XO XH)))) :: ((Npos (XI (XI
+    XH))) :: ((Npos (XO (XO (XO XH)))) :: ((Npos (XI (XI XH))) :: ((Npos (XI
+    (XI XH))) :: ((Npos (XO (XI XH))) :: ((Npos (XO (XO (XO XH)))) :: ((Npos
+    (XO (XO (XO XH)))) :: ((Npos (XO (XO (XO XH)))) :: ((Npos (XO (XO (XO
+    XH)))) :: ((Npos (XO (XO (XO XH)))) :: ((Npos (XO (XO (XO
+    XH)))) :: ((Npos (XO (XO (XO XH)))) :: ((Npos (XI (XI XH))) :: ((Npos (XO
+    (XO (XO XH)))) :: ((Npos (XO (XO (XO XH)))) :: ((Npos (XO (XO (XO
+    XH)))) :: ((Npos (XI (XI XH))) :: ((Npos (XO (XO (XO XH)))) :: ((Npos (XI
+    (XI XH))) :: ((Npos (XI (XI XH))) :: ((Npos (XO (XI XH))) :: ((Npos (XO
+    (XO (XO XH)))) :: ((Npos (XO (XO (XO XH)))) :: ((Npos (XO (XO (XO
+    XH)))) :: ((Npos (XI (XI XH))) :: ((Npos (XO (XO (XO XH)))) :: ((Npos (XI
+    (XI XH))) :: ((Npos (XI (XI XH))) :: ((Npos (XO (XI XH))) :: ((Npos (XO
+    (XO (XO XH)))) :: ((Npos (XI (XI XH))) :: ((Npos (XI (XI XH))) :: ((Npos
+    (XO (XI XH))) :: ((Npos (XI (XI XH))) :: ((Npos (XO (XI XH))) :: ((Npos
+    (XO (XI XH))) :: ((Npos (XI (XO XH))) :: ((Npos (XO (XO (XO
+    XH)))) :: ((Npos (XO (XO (XO XH)))) :: ((Npos (XO (XO (XO
+    XH)))) :: ((Npos (XO (XO (XO XH)))) :: ((Npos (XO (XO (XO
+    XH)))) :: ((Npos (XO (XO (XO XH)))) :: ((Npos (XO (XO (XO
+    XH)))) :: ((Npos (XO (XO (XO XH)))) :: ((Npos (XO (XO (XO
+    XH)))) :: ((Npos (XO (XO (XO XH)))) :: ((Npos (XO (XO (XO
+    XH)))) :: ((Npos (XO (XO (XO XH)))) :: ((Npos (XO (XO (XO
+    XH)))) :: ((Npos (XO (XO (XO XH)))) :: ((Npos (XO (XO (XO
+    XH)))) :: ((Npos (XO (XO (XO XH)))) :: ((Npos (XO (XO (XO
+    XH)))) :: ((Npos (XO (XO (XO XH)))) :: ((Npos (XO (XO (XO
+    XH)))) :: ((Npos (XO (XO (XO XH)))) :: ((Npos (XO (XO (XO
+    XH)))) :: ((Npos (XO (XO (XO XH)))) :: ((Npos (XO (XO (XO
+    XH)))) :: ((Npos (XO (XO (XO XH)))) :: ((Npos (XO (XO (XO
+    XH)))) :: ((Npos (XO (XO (XO XH)))) :: ((Npos (XO (XO (XO
+    XH)))) :: ((Npos (XO (XO (XO XH)))) :: ((Npos (XO (XO (XO
+    XH)))) :: ((Npos (XO (XO (XO XH)))) :: ((Npos (XO (XO (XO
+    XH)))) :: ((Npos (XO (XO (XO XH)))) :: ((Npos (XO (XO (XO
+    XH)))) :: ((Npos (XO (XO (XO XH)))) :: ((Npos (XO (XO (XO
+    XH)))) :: ((Npos (XO (XO (XO XH)))) :: ((Npos (XO (XO (XO
+    XH)))) :: ((Npos (XO (XO (XO XH)))) :: ((Npos (XO (XO (XO
+    XH)))) :: ((Npos (XO (XO (XO XH)))) :: ((Npos (XO (XO (XO
+    XH)))) :: ((Npos (XO (XO (XO XH)))) :: ((Npos (XO (XO (XO
+    XH)))) :: ((Npos (XO (XO (XO XH)))) :: ((Npos (XO (XO (XO
+    XH)))) :: ((Npos (XO (XO (XO XH)))) :: ((Npos (XO (XO (XO
+    XH)))) :: ((Npos (XO (XO (XO XH)))) :: ((Npos (XO (XO (XO
+    XH)))) :: ((Npos (XO (XO (XO XH)))) :: ((Npos (XO (XO (XO
+    XH)))) :: ((Npos (XO (XO (XO XH)))) :: ((Npos (XO (XO (XO
+    XH)))) :: ((Npos (XO (XO (XO XH)))) :: ((Npos (XO (XO (XO
+    XH)))) :: ((Npos (XO (XO (XO XH)))) :: ((Npos (XO (XO (XO
+    XH)))) :: ((Npos (XO (XO (XO XH)))) :: ((Npos (XO (XO (XO
+    XH)))) :: ((Npos (XO (XO (XO XH)))) :: ((Npos (XO (XO (XO
+    XH)))) :: ((Npos (XO (XO (XO XH)))) :: ((Npos (XO (XO (XO
+    XH)))) :: ((Npos (XO (XO (XO XH)))) :: ((Npos (XO (XO (XO
+    XH)))) :: ((Npos (XO (XO (XO XH)))) :: ((Npos (XO (XO (XO
+    XH)))) :: ((Npos (XO (XO (XO XH)))) :: ((Npos (XO (XO (XO
+    XH)))) :: ((Npos (XO (XO (XO XH)))) :: ((Npos (XO (XO (XO
+    XH)))) :: ((Npos (XO (XO (XO XH)))) :: ((Npos (XO (XO (XO
+    XH)))) :: ((Npos (XO (XO (XO XH)))) :: ((Npos (XO (XO (XO
+    XH)))) :: ((Npos (XO (XO (XO XH)))) :: ((Npos (XO (XO (XO
+    XH)))) :: ((Npos (XO (XO (XO XH)))) :: ((Npos (XO (XO (XO
+    XH)))) :: ((Npos (XO (XO (XO XH)))) :: ((Npos (XO (XO (XO
+    XH)))) :: ((Npos (XO (XO (XO XH)))) :: ((Npos (XO (XO (XO
+    XH)))) :: ((Npos (XO (XO (XO XH)))) :: ((Npos (XO (XO (XO
+    XH)))) :: ((Npos (XO (XO (XO XH)))) :: ((Npos (XO (XO (XO
+    XH)))) :: ((Npos (XO (XO (XO XH)))) :: ((Npos (XO (XO (XO
+    XH)))) :: ((Npos (XO (XO (XO XH)))) :: ((Npos (XO (XO (XO
+    XH)))) :: ((Npos (XO (XO (XO XH)))) :: ((Npos (XO (XO (XO
+    XH)))) :: ((Npos (XO (XO (XO XH)))) :: ((Npos (XO (XO (XO
+    XH)))) :: ((Npos (XO (XO (XO XH)))) :: ((Npos (XO (XO (XO
+    XH)))) :: ((Npos (XO (XO (XO XH)))) :: ((Npos (XO (XO (XO
+    XH)))) :: ((Npos (XO (XO (XO XH)))) :: ((Npos (XO (XO (XO
+    XH)))) :: ((Npos (XO (XO (XO XH)))) :: ((Npos (XO (XO (XO
+    XH)))) :: ((Npos (XO (XO (XO XH)))) :: ((Npos (XO (XO (XO
+    XH)))) :: ((Npos (XO (XO (XO XH)))) :: ((Npos (XO (XO (XO
+    XH)))) :: ((Npos (XO (XO (XO XH)))) :: ((Npos (XO (XO (XO
+    XH)))) :: ((Npos (XO (XO (XO XH)))) :: ((Npos (XO (XO (XO
+    XH)))) :: ((Npos (XO (XO (XO XH)))) :: ((Npos (XO (XO (XO
+    XH)))) :: ((Npos (XO (XO (XO XH)))) :: ((Npos (XO (XO (XO
+    XH)))) :: ((Npos (XO (XO (XO XH)))) :: ((Npos (XO (XO (XO
+    XH)))) :: ((Npos (XO (XO (XO XH)))) :: ((Npos (XO (XO (XO
+    XH)))) :: ((Npos (XO (XO (XO XH)))) :: ((Npos (XO (XO (XO
+    XH)))) :: ((Npos (XO (XO (XO XH)))) :: ((Npos (XO (XO (XO
+    XH)))) :: ((Npos (XO (XO (XO XH)))) :: ((Npos (XO (XO (XO
+    XH)))) :: ((Npos (XO (XO (XO XH)))) :: ((Npos (XO (XO (XO
+    XH)))) :: ((Npos (XO (XI XH))) :: ((Npos (XO (XO (XO XH)))) :: ((Npos (XO
+    (XO (XO XH)))) :: ((Npos (XO (XO (XO XH)))) :: ((Npos (XO (XO (XO
+    XH)))) :: ((Npos (XO (XO (XO XH)))) :: ((Npos (XO (XO (XO
+    XH)))) :: ((Npos (XO (XO (XO XH)))) :: ((Npos (XO (XO (XO
+    XH)))) :: ((Npos (XO (XO (XO XH)))) :: ((Npos (XO (XO (XO
+    XH)))) :: ((Npos (XO (XO (XO XH)))) :: ((Npos (XO (XO (XO
+    XH)))) :: ((Npos (XO (XO (XO XH)))) :: ((Npos (XO (XO (XO
+    XH)))) :: ((Npos (XO (XO (XO XH)))) :: ((Npos (XO (XO (XO
+    XH)))) :: ((Npos (XO (XO (XO XH)))) :: ((Npos (XO (XO (XO
+    XH)))) :: ((Npos (XO (XO (XO XH)))) :: ((Npos (XO (XO (XO
+    XH)))) :: ((Npos (XO (XO (XO XH)))) :: ((Npos (XO (XO (XO
+    XH)))) :: ((Npos (XO (XO (XO XH)))) :: ((Npos (XO (XO (XO
+    XH)))) :: ((Npos (XO (XO (XO XH)))) :: ((Npos (XO (XO (XO
+    XH)))) :: ((Npos (XO (XO (XO XH)))) :: ((Npos (XO (XO (XO
+    XH)))) :: ((Npos (XO (XO (XO XH)))) :: ((Npos (XO (XO (XO
+    XH)))) :: ((Npos (XO (XO (XO XH)))) :: ((Npos (XO (XO (XO
+    XH)))) :: ((Npos (XO (XO (XO XH)))) :: ((Npos (XO (XO (XO
+    XH)))) :: ((Npos (XO (XO (XO XH)))) :: ((Npos (XO (XO (XO
+    XH)))) :: ((Npos (XO (XO (XO XH)))) :: ((Npos (XO (XO (XO
+    XH)))) :: ((Npos (XO (XO (XO XH)))) :: ((Npos (XO (XO (XO
+    XH)))) :: ((Npos (XO (XO (XO XH)))) :: ((Npos (XO (XO (XO
+    XH)))) :: ((Npos (XO (XO (XO XH)))) :: ((Npos (XO (XO (XO
+    XH)))) :: ((Npos (XO (XO (XO XH)))) :: ((Npos (XO (XO (XO
+    XH)))) :: ((Npos (XO (XO (XO XH)))) :: ((Npos (XO (XO (XO
+    XH)))) :: ((Npos (XO (XO (XO XH)))) :: ((Npos (XO (XO (XO
+    XH)))) :: ((Npos (XO (XO (XO XH)))) :: ((Npos (XO (XO (XO
+    XH)))) :: ((Npos (XO (XO (XO XH)))) :: ((Npos (XO (XO (XO
+    XH)))) :: ((Npos (XO (XO (XO XH)))) :: ((Npos (XO (XO (XO
+    XH)))) :: ((Npos (XO (XO (XO XH)))) :: ((Npos (XO (XO (XO
+    XH)))) :: ((Npos (XO (XO (XO XH)))) :: ((Npos (XO (XO (XO
+    XH)))) :: ((Npos (XO (XO (XO XH)))) :: ((Npos (XO (XO (XO
+    XH)))) :: ((Npos (XO (XO (XO XH)))) :: ((Npos (XI (XI XH))) :: ((Npos (XO
+    (XO (XO XH)))) :: ((Npos (XO (XO (XO XH)))) :: ((Npos (XO (XO (XO
+    XH)))) :: ((Npos (XO (XO (XO XH)))) :: ((Npos (XO (XO (XO
+    XH)))) :: ((Npos (XO (XO (XO XH)))) :: ((Npos (XO (XO (XO
+    XH)))) :: ((Npos (XO (XO (XO XH)))) :: ((Npos (XO (XO (XO
+    XH)))) :: ((Npos (XO (XO (XO XH)))) :: ((Npos (XO (XO (XO
+    XH)))) :: ((Npos (XO (XO (XO XH)))) :: ((Npos (XO (XO (XO
+    XH)))) :: ((Npos (XO (XO (XO XH)))) :: ((Npos (XO (XO (XO
+    XH)))) :: ((Npos (XO (XO (XO XH)))) :: ((Npos (XO (XO (XO
+    XH)))) :: ((Npos (XO (XO (XO XH)))) :: ((Npos (XO (XO (XO
+    XH)))) :: ((Npos (XO (XO (XO XH)))) :: ((Npos (XO (XO (XO
+    XH)))) :: ((Npos (XO (XO (XO XH)))) :: ((Npos (XO (XO (XO
+    XH)))) :: ((Npos (XO (XO (XO XH)))) :: ((Npos (XO (XO (XO
+    XH)))) :: ((Npos (XO (XO (XO XH)))) :: ((Npos (XO (XO (XO
+    XH)))) :: ((Npos (XO (XO (XO XH)))) :: ((Npos (XO (XO (XO
+    XH)))) :: ((Npos (XO (XO (XO XH)))) :: ((Npos (XO (XO (XO
+    XH)))) :: ((Npos (XI (XI XH))) :: ((Npos (XO (XO (XO XH)))) :: ((Npos (XO
+    (XO (XO XH)))) :: ((Npos (XO (XO (XO XH)))) :: ((Npos (XO (XO (XO
+    XH)))) :: ((Npos (XO (XO (XO XH)))) :: ((Npos (XO (XO (XO
+    XH)))) :: ((Npos (XO (XO (XO XH)))) :: ((Npos (XO (XO (XO
+    XH)))) :: ((Npos (XO (XO (XO XH)))) :: ((Npos (XO (XO (XO
+    XH)))) :: ((Npos (XO (XO (XO XH)))) :: ((Npos (XO (XO (XO
+    XH)))) :: ((Npos (XO (XO (XO XH)))) :: ((Npos (XO (XO (XO
+    XH)))) :: ((Npos (XO (XO (XO XH)))) :: ((Npos (XI (XI XH))) :: ((Npos (XO
+    (XO (XO XH)))) :: ((Npos (XO (XO (XO XH)))) :: ((Npos (XO (XO (XO
+    XH)))) :: ((Npos (XO (XO (XO XH)))) :: ((Npos (XO (XO (XO
+    XH)))) :: ((Npos (XO (XO (XO XH)))) :: ((Npos (XO (XO (XO
+    XH)))) :: ((Npos (XI (XI XH))) :: ((Npos (XO (XO (XO XH)))) :: ((Npos (XO
+    (XO (XO XH)))) :: ((Npos (XO (XO (XO XH)))) :: ((Npos (XI (XI
+    XH))) :: ((Npos (XO (XO (XO XH)))) :: ((Npos (XI (XI XH))) :: ((Npos (XI
+    (XI XH))) :: ((Npos (XO (XI XH))) :: ((Npos (XO (XO (XO XH)))) :: ((Npos
+    (XO (XO (XO XH)))) :: ((Npos (XO (XO (XO XH)))) :: ((Npos (XO (XO (XO
+    XH)))) :: ((Npos (XO (XO (XO XH)))) :: ((Npos (XO (XO (XO
+    XH)))) :: ((Npos (XO (XO (XO XH)))) :: ((Npos (XO (XO (XO
+    XH)))) :: ((Npos (XO (XO (XO XH)))) :: ((Npos (XO (XO (XO
+    XH)))) :: ((Npos (XO (XO (XO XH)))) :: ((Npos (XO (XO (XO
+    XH)))) :: ((Npos (XO (XO (XO XH)))) :: ((Npos (XO (XO (XO
+    XH)))) :: ((Npos (XO (XO (XO XH)))) :: ((Npos (XO (XO (XO
+    XH)))) :: ((Npos (XO (XO (XO XH)))) :: ((Npos (XO (XO (XO
+    XH)))) :: ((Npos (XO (XO (XO XH)))) :: ((Npos (XO (XO (XO
+    XH)))) :: ((Npos (XO (XO (XO XH)))) :: ((Npos (XO (XO (XO
+    XH)))) :: ((Npos (XO (XO (XO XH)))) :: ((Npos (XO (XO (XO
+    XH)))) :: ((Npos (XO (XO (XO XH)))) :: ((Npos (XO (XO (XO
+    XH)))) :: ((Npos (XO (XO (XO XH)))) :: ((Npos (XO (XO (XO
+    XH)))) :: ((Npos (XO (XO (XO XH)))) :: ((Npos (XO (XO (XO
+    XH)))) :: ((Npos (XO (XO (XO XH)))) :: ((Npos (XO (XO (XO
+    XH)))) :: ((Npos (XO (XO (XO XH)))) :: ((Npos (XO (XO (XO
+    XH)))) :: ((Npos (XO (XO (XO XH)))) :: ((Npos (XO (XO (XO
+    XH)))) :: ((Npos (XO (XO (XO XH)))) :: ((Npos (XO (XO (XO
+    XH)))) :: ((Npos (XO (XO (XO XH)))) :: ((Npos (XO (XO (XO
+    XH)))) :: ((Npos (XO (XO (XO XH)))) :: ((Npos (XO (XO (XO
+    XH)))) :: ((Npos (XO (XO (XO XH)))) :: ((Npos (XO (XO (XO
+    XH)))) :: ((Npos (XO (XO (XO XH)))) :: ((Npos (XO (XO (XO
+    XH)))) :: ((Npos (XO (XO (XO XH)))) :: ((Npos (XO (XO (XO
+    XH)))) :: ((Npos (XO (XO (XO XH)))) :: ((Npos (XO (XO (XO
+    XH)))) :: ((Npos (XO (XO (XO XH)))) :: ((Npos (XO (XO (XO
+    XH)))) :: ((Npos (XO (XO (XO XH)))) :: ((Npos (XO (XO (XO
+    XH)))) :: ((Npos (XO (XO (XO XH)))) :: ((Npos (XO (XO (XO
+    XH)))) :: ((Npos (XO (XO (XO XH)))) :: ((Npos (XO (XO (XO
+    XH)))) :: ((Npos (XO (XO (XO XH)))) :: ((Npos (XO (XO (XO
+    XH)))) :: ((Npos (XO (XO (XO XH)))) :: ((Npos (XO (XO (XO
+    XH)))) :: ((Npos (XO (XO (XO XH)))) :: ((Npos (XO (XO (XO
+    XH)))) :: ((Npos (XO (XO (XO XH)))) :: ((Npos (XO (XO (XO
+    XH)))) :: ((Npos (XO (XO (XO XH)))) :: ((Npos (XO (XO (XO
+    XH)))) :: ((Npos (XO (XO (XO XH)))) :: ((Npos (XO (XO (XO
+    XH)))) :: ((Npos (XO (XO (XO XH)))) :: ((Npos (XO (XO (XO
+    XH)))) :: ((Npos (XO (XO (XO XH)))) :: ((Npos (XO (XO (XO
+    XH)))) :: ((Npos (XO (XO (XO XH)))) :: ((Npos (XO (XO (XO
+    XH)))) :: ((Npos (XO (XO (XO XH)))) :: ((Npos (XO (XO (XO
+    XH)))) :: ((Npos (XO (XO (XO XH)))) :: ((Npos (XO (XO (XO
+    XH)))) :: ((Npos (XO (XO (XO XH)))) :: ((Npos (XO (XO (XO
+    XH)))) :: ((Npos (XO (XO (XO XH)))) :: ((Npos (XO (XO (XO
+    XH)))) :: ((Npos (XO (XO (XO XH)))) :: ((Npos (XO (XO (XO
+    XH)))) :: ((Npos (XO (XO (XO XH)))) :: ((Npos (XO (XO (XO
+    XH)))) :: ((Npos (XO (XO (XO XH)))) :: ((Npos (XO (XO (XO
+    XH)))) :: ((Npos (XO (XO (XO XH)))) :: ((Npos (XO (XO (XO
+    XH)))) :: ((Npos (XO (XO (XO XH)))) :: ((Npos (XO (XO (XO
+    XH)))) :: ((Npos (XO (XO (XO XH)))) :: ((Npos (XO (XO (XO
+    XH)))) :: ((Npos (XO (XO (XO XH)))) :: ((Npos (XO (XO (XO
+    XH)))) :: ((Npos (XO (XO (XO XH)))) :: ((Npos (XO (XO (XO
+    XH)))) :: ((Npos (XO (XO (XO XH)))) :: ((Npos (XO (XO (XO
+    XH)))) :: ((Npos (XO (XO (XO XH)))) :: ((Npos (XO (XO (XO
+    XH)))) :: ((Npos (XO (XO (XO XH)))) :: ((Npos (XO (XO (XO
+    XH)))) :: ((Npos (XO (XO (XO XH)))) :: ((Npos (XO (XO (XO
+    XH)))) :: ((Npos (XO (XO (XO XH)))) :: ((Npos (XO (XO (XO
+    XH)))) :: ((Npos (XO (XO (XO XH)))) :: ((Npos (XO (XO (XO
+    XH)))) :: ((Npos (XO (XO (XO XH)))) :: ((Npos (XO (XO (XO
+    XH)))) :: ((Npos (XO (XO (XO XH)))) :: ((Npos (XO (XO (XO
+    XH)))) :: ((Npos (XO (XO (XO XH)))) :: ((Npos (XO (XO (XO
+    XH)))) :: ((Npos (XO (XO (XO XH)))) :: ((Npos (XO (XO (XO
+    XH)))) :: ((Npos (XO (XO (XO XH)))) :: ((Npos (XO (XO (XO
+    XH)))) :: ((Npos (XO (XO (XO XH)))) :: ((Npos (XO (XO (XO
+    XH)))) :: ((Npos (XO (XO (XO XH)))) :: ((Npos (XO (XO (XO
+    XH)))) :: ((Npos (XO (XO (XO XH)))) :: ((Npos (XO (XO (XO
+    XH)))) :: ((Npos (XO (XO (XO XH)))) :: ((Npos (XO (XO (XO
+    XH)))) :: ((Npos (XO (XO (XO XH)))) :: ((Npos (XO (XO (XO
+    XH)))) :: ((Npos (XO (XO (XO XH)))) :: ((Npos (XO (XO (XO
+    XH)))) :: ((Npos (XO (XO (XO XH)))) :: ((Npos (XO (XO (XO
+    XH)))) :: ((Npos (XO (XO (XO XH)))) :: ((Npos (XO (XO (XO
+    XH)))) :: ((Npos (XO (XO (XO XH)))) :: ((Npos (XO (XO (XO
+    XH)))) :: ((Npos (XO (XO (XO XH)))) :: ((Npos (XO (XO (XO
+    XH)))) :: ((Npos (XO (XO (XO XH)))) :: ((Npos (XO (XO (XO
+    XH)))) :: ((Npos (XO (XO (XO XH)))) :: ((Npos (XO (XO (XO
+    XH)))) :: ((Npos (XO (XO (XO XH)))) :: ((Npos (XO (XO (XO
+    XH)))) :: ((Npos (XO (XO (XO XH)))) :: ((Npos (XO (XO (XO
+    XH)))) :: ((Npos (XO (XO (XO XH)))) :: ((Npos (XO (XO (XO
+    XH)))) :: ((Npos (XO (XO (XO XH)))) :: ((Npos (XO (XO (XO
+    XH)))) :: ((Npos (XO (XO (XO XH)))) :: ((Npos (XO (XO (XO
+    XH)))) :: ((Npos (XO (XO (XO XH)))) :: ((Npos (XO (XO (XO
+    XH)))) :: ((Npos (XO (XO (XO XH)))) :: ((Npos (XO (XO (XO
+    XH)))) :: ((Npos (XO (XO (XO XH)))) :: ((Npos (XO (XO (XO
+    XH)))) :: ((Npos (XO (XO (XO XH)))) :: ((Npos (XO (XO (XO
+    XH)))) :: ((Npos (XO (XO (XO XH)))) :: ((Npos (XO (XO (XO
+    XH)))) :: ((Npos (XO (XO (XO XH)))) :: ((Npos (XO (XO (XO
+    XH)))) :: ((Npos (XO (XO (XO XH)))) :: ((Npos (XO (XO (XO
+    XH)))) :: ((Npos (XO (XO (XO XH)))) :: ((Npos (XO (XO (XO
+    XH)))) :: ((Npos (XO (XO (XO XH)))) :: ((Npos (XO (XO (XO
+    XH)))) :: ((Npos (XO (XO (XO XH)))) :: ((Npos (XO (XO (XO
+    XH)))) :: ((Npos (XO (XO (XO XH)))) :: ((Npos (XO (XO (XO
+    XH)))) :: ((Npos (XO (XO (XO XH)))) :: ((Npos (XO (XO (XO
+    XH)))) :: ((Npos (XO (XO (XO XH)))) :: ((Npos (XO (XO (XO
+    XH)))) :: ((Npos (XO (XO (XO XH)))) :: ((Npos (XO (XO (XO
+    XH)))) :: ((Npos (XO (XO (XO XH)))) :: ((Npos (XO (XO (XO
+    XH)))) :: ((Npos (XO (XO (XO XH)))) :: ((Npos (XO (XO (XO
+    XH)))) :: ((Npos (XO (XO (XO XH)))) :: ((Npos (XO (XO (XO
+    XH)))) :: ((Npos (XO (XO (XO XH)))) :: ((Npos (XO (XO (XO
+    XH)))) :: ((Npos (XO (XO (XO XH)))) :: ((Npos (XO (XO (XO
+    XH)))) :: ((Npos (XO (XO (XO XH)))) :: ((Npos (XO (XO (XO
+    XH)))) :: ((Npos (XO (XO (XO XH)))) :: ((Npos (XO (XO (XO
+    XH)))) :: ((Npos (XO (XO (XO XH)))) :: ((Npos (XO (XO (XO
+    XH)))) :: ((Npos (XO (XO (XO XH)))) :: ((Npos (XO (XO (XO
+    XH)))) :: ((Npos (XO (XO (XO XH)))) :: ((Npos (XO (XO (XO
+    XH)))) :: ((Npos (XO (XO (XO XH)))) :: ((Npos (XO (XO (XO
+    XH)))) :: ((Npos (XO (XO (XO XH)))) :: ((Npos (XO (XO (XO
+    XH)))) :: ((Npos (XO (XO (XO XH)))) :: ((Npos (XO (XO (XO
+    XH)))) :: ((Npos (XO (XO (XO XH)))) :: ((Npos (XO (XO (XO
+    XH)))) :: ((Npos (XO (XO (XO XH)))) :: ((Npos (XO (XO (XO
+    XH)))) :: ((Npos (XO (XO (XO XH)))) :: ((Npos (XO (XO (XO
+    XH)))) :: ((Npos (XO (XO (XO XH)))) :: ((Npos (XO (XO (XO
+    XH)))) :: ((Npos (XO (XO (XO XH)))) :: ((Npos (XO (XO (XO
+    XH)))) :: ((Npos (XO (XO (XO XH)))) :: ((Npos (XO (XO (XO
+    XH)))) :: ((Npos (XO (XO (XO XH)))) :: ((Npos (XO (XO (XO
+    XH)))) :: ((Npos (XO (XO (XO XH)))) :: ((Npos (XO (XO (XO
+    XH)))) :: ((Npos (XO (XO (XO XH)))) :: ((Npos (XO (XO (XO
+    XH)))) :: ((Npos (XO (XO (XO XH)))) :: ((Npos (XO (XO (XO
+    XH)))) :: ((Npos (XO (XO (XO XH)))) :: ((Npos (XO (XO (XO
+    XH)))) :: ((Npos (XO (XO (XO XH)))) :: ((Npos (XO (XO (XO
+    XH)))) :: ((Npos (XO (XO (XO XH)))) :: ((Npos (XO (XO (XO
+    XH)))) :: ((Npos (XO (XO (XO XH)))) :: ((Npos (XO (XO (XO
+    XH)))) :: ((Npos (XO (XO (XO XH)))) :: ((Npos (XO (XO (XO
+    XH)))) :: ((Npos (XO (XO (XO XH)))) :: ((Npos (XO (XO (XO
+    XH)))) :: ((Npos (XO (XO (XO XH)))) :: ((Npos (XO (XO (XO
+    XH)))) :: ((Npos (XO (XO (XO XH)))) :: ((Npos (XO (XO (XO
+    XH)))) :: ((Npos (XO (XO (XO XH)))) :: ((Npos (XO (XO (XO
+    XH)))) :: ((Npos (XO (XO (XO XH)))) :: ((Npos (XO (XO (XO
+    XH)))) :: ((Npos (XO (XO (XO XH)))) :: ((Npos (XO (XO (XO
+    XH)))) :: ((Npos (XO (XO (XO XH)))) :: ((Npos (XO (XO (XO
+    XH)))) :: ((Npos (XO (XO (XO XH)))) :: ((Npos (XI (XI
+    XH))) :: [])))))))))))))))))))))))))))))))))))))))))))))))))))))))))))))))))))))))))))))))))))))))))))))))))))))))))))))))))))))))))))))))))))))))))))))))))))))))))))))))))))))))))))))))))))))))))))))))))))))))))))))))))))))))))))))))))))))))))))))))))))))))))))))))))))))))))))))))))))))))))))))))))))))))))))))))))))))))))))))))))))))))))))))))))))))))))))))))))))))))))))))))))))))))))))))))))))))))))))))))))))))))))))))))))))))))))))))))))))))))))))))))))))))))))))))))))))))))))))))))))))))))))))))))))))))))))))))))))))))))))))))))))))))))))))))))))))))))))))))))))))))))))))))))))))))))))))))))))))))))))))))))))))))))))))))))))))))))))))))))))))))))))))))))))))))))))))))))))))))))))))))))))))))))))))))))))))))))))))))))))))))))))))))))))))))))))))))))))))))))))))))))))))))))))))))))))))))))))))))))))))))))))))))))))))))))))))))))))))))))))))))))))))))))))))))))))))))))))))))))))))))))))))))))))))))))))))))))))))))))))))))))))))))))))))))))))))))))))))))))))))))))))))))))))))))))))))))))))))))))))))))))))))))))))))))))))))))))))))))))))))))))))))))))))))))))))))))))))))))))))))))))))))))))))))))))))))))))))))))))))))))))))))))))))))))))))))))))))))))))))))))))))))))))))))))))))))))))))))))))))))))))))))))))))))))))))))))))))))))))))))))))))))))))))))))))))))))))))))))))))))))))))))))))))))))))))))))))))))))))))))))))))))))))))))))))))))))))))))))))))))))))))))))))))))))))))))))))))))))))))))))))))))))))))))))))))))))))))))))))))))))))))))))))))))))))))))))))))))))))))))))))))))))))))))))))))))))))))))))))))))))))))))))))))))))))))))))))))))))))))))))))))))))))))))))))))))))))))))))))))))))))))))))))))))))))))))))))))))))))))))))))))))))))))))))))))))))))))))))))))))))))))))))))))))))))))))))))))))))))))))))))))))))))))))))))))))))))))))))))))))))))))))))))))))))))))))))))))))))))))))))))))))))))))))))))))))))))))))))))))))))))))))))))))))))))))))))))))))))))))))))))))))))))))))))))))))))))))))))))))))))))))))))))))))))))))))))))))))))))))))))))))))))))))))))))))))))))))))))))))))))))))))))))))))))))))))))))))))))))))))))))
+
+(** val popcount_pos : positive -> n **)
+
+let rec popcount_pos = function
+| XI q -> N.add (Npos XH) (popcount_pos q)
+| XO q -> popcount_pos q
+| XH -> Npos XH
+
+(** val popcount : n -> n **)
+
+let popcount = function
+| N0 -> N0
+| Npos p -> popcount_pos p
+
+(** val m64 : n **)
+
+let m64 =
+  N.pow (Npos (XO XH)) (Npos (XO (XO (XO (XO (XO (XO XH)))))))
+
+(** val select_in_word : n -> n -> n outcome **)
+
+let select_in_word word k =
+  bind
+    (osub word
+      (N.shiftr (N.coq_land word (N.mul sIW_M1 k_ONES_STEP4)) (Npos XH)))
+    (fun s ->
+    bind
+      (oadd (Npos (XO (XO (XO (XO (XO (XO XH)))))))
+        (N.coq_land s (N.mul sIW_M2 k_ONES_STEP4))
+        (N.coq_land (N.shiftr s (Npos (XO XH)))
+          (N.mul (Npos (XI XH)) k_ONES_STEP4))) (fun s0 ->
+      bind
+        (oadd (Npos (XO (XO (XO (XO (XO (XO XH))))))) s0
+          (N.shiftr s0 (Npos (XO (XO XH))))) (fun t ->
+        let s1 = N.coq_land t (N.mul sIW_M3 k_ONES_STEP8) in
+        let byte_sums = N.modulo (N.mul s1 k_ONES_STEP8) m64 in
+        bind (omul (Npos (XO (XO (XO (XO (XO (XO XH))))))) k k_ONES_STEP8)
+          (fun k_step8 ->
+          bind (osub (N.coq_lor k_step8 k_LAMBDAS_STEP8) byte_sums) (fun d ->
+            let geq_k_step8 = N.coq_land d k_LAMBDAS_STEP8 in
+            bind
+              (omul (Npos (XO (XO (XO (XO (XO XH)))))) (popcount geq_k_step8)
+                sIW_PLACE_MUL) (fun place ->
+              if N.eqb place sIW_NOTFOUND
+              then Val (Npos (XO (XO (XO (XO (XO (XO XH)))))))
+              else bind
+                     (oshl (Npos (XO (XO (XO (XO (XO (XO XH))))))) byte_sums
+                       (Npos (XO (XO (XO XH))))) (fun sh ->
+                     bind
+                       (oshr (Npos (XO (XO (XO (XO (XO (XO XH))))))) sh place)
+                       (fun sr ->
+                       bind (osub k (N.coq_land sr sIW_BYTE_MASK))
+                         (fun byte_rank ->
+                         bind
+                           (oshr (Npos (XO (XO (XO (XO (XO (XO XH))))))) word
+                             place) (fun wsh ->
+                           bind
+                             (oshl (Npos (XO (XO (XO (XO (XO (XO XH)))))))
+                               byte_rank (Npos (XO (XO (XO XH)))))
+                             (fun br8 ->
+                             bind
+                               (idx sel_table
+                                 (N.coq_lor
+                                   (N.coq_land wsh (Npos (XI (XI (XI (XI (XI
+                                     (XI (XI XH))))))))) br8)) (fun tv ->
+                               oadd (Npos (XO (XO (XO (XO (XO XH)))))) place
+                                 tv))))))))))))
+
+(** val select_in_word_u128 : n -> n -> n outcome **)
+
+let select_in_word_u128 word k =
+  let first = N.modulo word m64 in
+  let kp = popcount first in
+  if N.ltb k kp
+  then select_in_word first k
+  else bind (osub k kp) (fun k' ->
+         bind
+           (select_in_word
+             (N.modulo
+               (N.shiftr word (Npos (XO (XO (XO (XO (XO (XO XH)))))))) m64)
+             k') (fun r ->
+           oadd (Npos (XO (XO (XO (XO (XO XH)))))) (Npos (XO (XO (XO (XO (XO
+             (XO XH))))))) r))
+
+(** val popcnt_wide : nat -> n list -> n **)
+
+let popcnt_wide n0 data =
+  sumN (map popcount (firstn n0 data))
+
+(** val msb_w : n -> n -> n outcome **)
+
+let msb_w w v =
+  if N.eqb v N0
+  then Val N0
+  else osub (N.sub w (Npos XH)) (N.sub (N.sub w (Npos XH)) (N.log2 v))
+
+(** val m128 : n **)
+
+let m128 =
+  N.pow (Npos (XO XH)) (Npos (XO (XO (XO (XO (XO (XO (XO XH))))))))
+
+(** val qline_set_symbol : n list -> n -> n -> n list outcome **)
+
+let qline_set_symbol ws symbol i =
+  let word_id_high = N.shiftr i qV_WORD_SHIFT in
+  let word_id_low = N.add word_id_high qV_LOW_PLANE in
+  let cur_shift = N.coq_land i qV_WORD_MASK in
+  let symbol0 = N.coq_land symbol qV_SYM_MASK in
+  bind (idx ws word_id_high) (fun wh ->
+    bind
+      (oshl (Npos (XO (XO (XO (XO (XO (XO (XO XH))))))))
+        (N.shiftr symbol0 (Npos XH)) cur_shift) (fun hi ->
+      let ws1 = setN ws word_id_high (N.coq_lor wh hi) in
+      bind (idx ws1 word_id_low) (fun wl ->
+        bind
+          (oshl (Npos (XO (XO (XO (XO (XO (XO (XO XH))))))))
+            (N.coq_land symbol0 (Npos XH)) cur_shift) (fun lo -> Val
+          (setN ws1 word_id_low (N.coq_lor wl lo))))))
+
+(** val qline_get_unchecked : n list -> n -> n outcome **)
+
+let qline_get_unchecked ws i =
+  let word_id_high = N.shiftr i qVG_WORD_SHIFT in
+  let word_id_low = N.add word_id_high qVG_LOW_PLANE in
+  let cur_shift = N.coq_land i qVG_WORD_MASK in
+  bind (uidx ws word_id_high) (fun word_high ->
+    bind (uidx ws word_id_low) (fun word_low ->
+      bind
+        (oshr (Npos (XO (XO (XO (XO (XO (XO (XO XH)))))))) word_high
+          cur_shift) (fun h ->
+        bind
+          (oshr (Npos (XO (XO (XO (XO (XO (XO (XO XH)))))))) word_low
+            cur_shift) (fun l -> Val
+          (N.modulo
+            (N.coq_lor (N.shiftl (N.coq_land h (Npos XH)) (Npos XH))
+              (N.coq_land l (Npos XH))) (Npos (XO (XO (XO (XO (XO (XO (XO (XO
+            XH))))))))))))))
+
+(** val qline_normalize : n list -> n -> (n * n) outcome **)
+
+let qline_normalize ws symbol =
+  let rep = fun b -> if N.eqb b N0 then N.sub m128 (Npos XH) else N0 in
+  let mask_high = rep (N.shiftr symbol (Npos XH)) in
+  let mask_low = rep (N.coq_land symbol (Npos XH)) in
+  bind
+    (if N.ltb (Npos XH) (N.shiftr symbol (Npos XH))
+     then Fault Panic
+     else Val ()) (fun _ ->
+    bind (idx ws N0) (fun w0 ->
+      bind (idx ws (Npos XH)) (fun w1 ->
+        bind (idx ws (Npos (XO XH))) (fun w2 ->
+          bind (idx ws (Npos (XI XH))) (fun w3 -> Val
+            ((N.coq_land (N.coq_lxor w0 mask_high) (N.coq_lxor w2 mask_low)),
+            (N.coq_land (N.coq_lxor w1 mask_high) (N.coq_lxor w3 mask_low))))))))
+
+(** val qline_rank_unchecked : n list -> n -> n -> n outcome **)
+
+let qline_rank_unchecked ws symbol i =
+  bind (odebug_assert (N.leb symbol (Npos (XI XH)))) (fun _ ->
+    bind
+      (odebug_assert
+        (N.leb i (Npos (XO (XO (XO (XO (XO (XO (XO (XO XH)))))))))))
+      (fun _ ->
+      bind (qline_normalize ws symbol) (fun pat ->
+        let (word_0, word_1) = pat in
+        let last_word = N.shiftr i qVR_WORD_SHIFT in
+        let offset = N.coq_land i qVR_WORD_MASK in
+        let mask_full = N.sub m128 (Npos XH) in
+        bind
+          (oshl (Npos (XO (XO (XO (XO (XO (XO (XO XH)))))))) (Npos XH) offset)
+          (fun one_sh ->
+          bind (osub one_sh (Npos XH)) (fun mask_offset ->
+            let mask0 = if N.eqb last_word N0 then mask_offset else mask_full
+            in
+            let rank = popcount (N.coq_land word_0 mask0) in
+            let mask1 =
+              if N.eqb last_word (Npos XH)
+              then mask_offset
+              else N.mul mask_full
+                     (if N.eqb last_word (Npos (XO XH)) then Npos XH else N0)
+            in
+            Val (N.add rank (popcount (N.coq_land word_1 mask1))))))))
+
+(** val plane_bits : (n -> n) -> n list -> n **)
+
+let rec plane_bits bit = function
+| [] -> N0
+| s :: r -> N.add (bit s) (N.mul (Npos (XO XH)) (plane_bits bit r))
+
+(** val pack_qline : n list -> n list **)
+
+let pack_qline syms =
+  let hi = fun s -> N.modulo (N.shiftr s (Npos XH)) (Npos (XO XH)) in
+  let lo = fun s -> N.modulo s (Npos (XO XH)) in
+  (plane_bits hi
+    (firstn (S (S (S (S (S (S (S (S (S (S (S (S (S (S (S (S (S (S (S (S (S (S
+      (S (S (S (S (S (S (S (S (S (S (S (S (S (S (S (S (S (S (S (S (S (S (S (S
+      (S (S (S (S (S (S (S (S (S (S (S (S (S (S (S (S (S (S (S (S (S (S (S (S
+      (S (S (S (S (S (S (S (S (S (S (S (S (S (S (S (S (S (S (S (S (S (S (S (S
+      (S (S (S (S (S (S (S (S (S (S (S (S (S (S (S (S (S (S (S (S (S (S (S (S
+      (S (S (S (S (S (S (S (S (S (S
+      O))))))))))))))))))))))))))))))))))))))))))))))))))))))))))))))))))))))))))))))))))))))))))))))))))))))))))))))))))))))))))))))))
+      syms)) :: ((plane_bits hi
+                   (skipn (S (S (S (S (S (S (S (S (S (S (S (S (S (S (S (S (S
+                     (S (S (S (S (S (S (S (S (S (S (S (S (S (S (S (S (S (S (S
+                     (S (S (S (S (S (S (S (S (S (S (S (S (S (S (S (S (S (S (S
+                     (S (S (S (S (S (S (S (S (S (S (S (S (S (S (S (S (S (S (S
+                     (S (S (S (S (S (S (S (S (S (S (S (S (S (S (S (S (S (S (S
+                     (S (S (S (S (S (S (S (S (S (S (S (S (S (S (S (S (S (S (S
+                     (S (S (S (S (S (S (S (S (S (S (S (S (S (S (S (S
+                     O))))))))))))))))))))))))))))))))))))))))))))))))))))))))))))))))))))))))))))))))))))))))))))))))))))))))))))))))))))))))))))))))
+                     syms)) :: ((plane_bits lo
+                                  (firstn (S (S (S (S (S (S (S (S (S (S (S (S
+                                    (S (S (S (S (S (S (S (S (S (S (S (S (S (S
+                                    (S (S (S (S (S (S (S (S (S (S (S (S (S (S
+                                    (S (S (S (S (S (S (S (S (S (S (S (S (S (S
+                                    (S (S (S (S (S (S (S (S (S (S (S (S (S (S
+                                    (S (S (S (S (S (S (S (S (S (S (S (S (S (S
+                                    (S (S (S (S (S (S (S (S (S (S (S (S (S (S
+                                    (S (S (S (S (S (S (S (S (S (S (S (S (S (S
+                                    (S (S (S (S (S (S (S (S (S (S (S (S (S (S
+                                    (S (S (S (S
+                                    O))))))))))))))))))))))))))))))))))))))))))))))))))))))))))))))))))))))))))))))))))))))))))))))))))))))))))))))))))))))))))))))))
+                                    syms)) :: ((plane_bits lo
+                                                 (skipn (S (S (S (S (S (S (S
+                                                   (S (S (S (S (S (S (S (S (S
+                                                   (S (S (S (S (S (S (S (S (S
+                                                   (S (S (S (S (S (S (S (S (S
+                                                   (S (S (S (S (S (S (S (S (S
+                                                   (S (S (S (S (S (S (S (S (S
+                                                   (S (S (S (S (S (S (S (S (S
+                                                   (S (S (S (S (S (S (S (S (S
+                                                   (S (S (S (S (S (S (S (S (S
+                                                   (S (S (S (S (S (S (S (S (S
+                                                   (S (S (S (S (S (S (S (S (S
+                                                   (S (S (S (S (S (S (S (S (S
+                                                   (S (S (S (S (S (S (S (S (S
+                                                   (S (S (S (S (S (S (S (S (S
+                                                   (S (S (S (S
+                                                   O))))))))))))))))))))))))))))))))))))))))))))))))))))))))))))))))))))))))))))))))))))))))))))))))))))))))))))))))))))))))))))))))
+                                                   syms)) :: [])))
